@@ -6,1166 +6,589 @@ import io
 import struct
 from typing import Dict, List, Optional, Tuple
 
-from sa.astx import NotConst, call_attr, call_name, const_eval, dotted, lincmp, module_consts, src, statements, walk_local
-from sa.props._lib_g import (Inst, MiniEval, attrs_to_names, class_const, expand, fmt_lin, fresh, is_self_attr, lin_equal, lin_expect, module_classes, must_pass, norm_cmp,
-                             run_eval, single_defs, struct_codes)
+from sa.astx import module_consts, src
+from sa.props._lib_g import DictInst, Inst, MiniEval, Opaque, OpaqueInst, _ClassRef, class_const, module_classes, run_eval
 from sa.selftest import Mutant, Silent
-from sa.source import AnalysisError, base_names, class_assigns, methods, mro_lookup
+from sa.source import AnalysisError, methods, mro_lookup
 
 PROPERTY = "C32"
 DNS = "names/dns.py"
 Q = "twisted.names.dns"
-TECHNIQUE = "symbolic wire layout of encode vs decode, table agreement, finite bit-field evaluation, guard dominance"
+TECHNIQUE = "interpretation of encode/decode on concrete messages against an independent DNS parser"
 EXPLANATION = (
-    'For every class with encode/decode the ordered wire layout written by encode (struct codes, length prefixes, raw '
-    'fields, nested objects, conditional and repeated parts) is extracted symbolically and must equal the layout read '
-    "by decode attribute by attribute, with byte accounting for length-delimited fields (frozen exceptions: Name's "
-    "pointer form, RRHeader's back-patched rdlength, Record_TSIG's 48-bit time, the delegating _OPTHeader, each with "
-    'its own rule). Message header flags, the OPT TTL fields and the EDNS rCode split are evaluated on finite grids '
-    'against RFC 1035/2535/6891 bit positions in both directions, and the four counters are paired with the four '
-    'sections in the same order both ways. The registry _recordTypes is built from every Record_* class (all defined '
-    'before Message, pairwise distinct TYPEs, constructible with ttl=, unknown types fall back to UnknownRecord) and '
-    'the attributes set by decode are exactly those compared by ==. Truncation: the size test is exactly size > '
-    'maxSize, sets trunc before the flags byte is computed and cuts the body to maxSize - headerSize; decoding stops '
-    'quietly on EOFError and appends only fully decoded records. Name.encode must refuse labels longer than 63 bytes '
-    'and compression offsets >= 0x4000: both guards are missing (known finding F32). Not decided: value equality of '
-    'whole messages, compression optimality, the vendored third-party decoder.'
+    "Message / record / name encoders and decoders are interpreted (whitelisted AST interpreter; twisted is never imported) on concrete messages and the "
+    "OUTPUTS are judged, so the verdict does not depend on how the code is arranged. "
+    "For every registered record class, for all header flags, for the four sections with distinct counts, for names that share suffixes, differ in "
+    "case, nest 40 levels deep or repeat, for records with empty RDATA, unknown types, EDNS OPT records and the leaf codecs around the empty string and "
+    "the 255/256-octet boundary: toStr() then fromStr() must give an equal message (compared through the classes' own compareAttributes), an independent "
+    "RFC 1035/2535/6891 parser written in the checker must read the same header bits, counts, names, types, TTLs and RDATA framing, and an item the "
+    "format cannot carry must be refused by encode, not altered. "
+    "Size limit: for limits around the exact size the output is within the limit, TC is set exactly when something was cut, and decoding yields a "
+    "prefix of the records. "
+    "Name.encode must refuse labels longer than 63 bytes and never write a compression pointer to an offset >= 0x4000: both fail (known finding F32). "
+    "Statically: every Record_* class is defined before Message, has a distinct TYPE, accepts ttl=, and attributes a decoder sets are compared by ==. "
+    "Not decided: compression optimality, the vendored third-party decoder (replaced here by the checker's own parser)."
 )
 ASSUMPTIONS = [
-    "struct format codes have their CPython standard sizes under the '!' prefix",
-    "strio is a seekable bytes buffer (BytesIO) as in Message.toStr/fromStr",
+    "struct, bytes and BytesIO behave as in CPython 3.12 (used by the interpreter, not modelled)",
+    "Message._recordTypes (filled by a loop over globals() in the class body) equals {cls.TYPE: cls for every module-level Record_* class}; the static registry rules check "
+    "the conditions under which that loop sees every class",
 ]
-
-LAYOUT_EXCEPTIONS = {
-    "Name": "labels are written as length byte + bytes until a zero byte, or a 2-byte pointer packed as !H and decoded bytewise; checked by its own rules",
-    "Message": "header bit fields and section loops are checked by the header/sections rules",
-    "_OPTHeader": "delegates to RRHeader with an UnknownRecord payload; its TTL bit fields are evaluated separately",
-    "Record_TSIG": "48-bit time: pack('!Q')[2:] is read back as two zero bytes + !QHH; compared by total sizes instead",
-}
-SLOT_EXCEPTIONS = {("RRHeader", 4): "rdlength is written as 0 and back-patched with a separate !H after the payload is encoded"}
-NOT_COMPARED = {("RRHeader", "rdlength"): "derived from the payload length", ("Record_A6", "bytes"): "derived from prefixLen"}
-NOT_DECODED = {
-    "ttl": "taken from the enclosing RRHeader by Message.parseRecords",
-    ("RRHeader", "payload"): "decoded by Message.parseRecords according to the type", ("RRHeader", "auth"): "copied from the message by parseRecords",
-    ("_OPTHeader", "name"): "read-only property", ("_OPTHeader", "type"): "read-only property",
-    ("Message", "maxSize"): "transport limit, reset by decode",
-    ("Message", "answers"): "filled in place by parseRecords (pairing checked by header/sections)",
-    ("Message", "authority"): "filled in place by parseRecords (pairing checked by header/sections)",
-    ("Message", "additional"): "filled in place by parseRecords (pairing checked by header/sections)",
-}
 
 
 def _fail(msg):
     raise AnalysisError("C32: " + msg)
 
 
-# ---------------------------------------------------------------------------------------------------------------
-# symbolic layouts
+# ---- independent parser (RFC 1035 4.1, RFC 2535 6.1) -----------------------------------------------------------------
 
-Tok = Tuple
+class ParseError(Exception):
+    pass
 
 
-def _fmt_of(expr, mod, cls, consts) -> Optional[str]:
-    if is_self_attr(expr):
-        v = class_const(mod, cls, expr.attr, consts)
-        return v if isinstance(v, str) else None
+def _p_name(wire: bytes, pos: int) -> Tuple[bytes, int]:
+    labels = []
+    end = None
+    hops = 0
+    while True:
+        if pos >= len(wire):
+            raise ParseError("name runs past the end")
+        n = wire[pos]
+        if n == 0:
+            pos += 1
+            break
+        if n & 0xC0 == 0xC0:
+            if pos + 1 >= len(wire):
+                raise ParseError("pointer runs past the end")
+            target = ((n & 0x3F) << 8) | wire[pos + 1]
+            if end is None:
+                end = pos + 2
+            hops += 1
+            if hops > 200 or target >= len(wire):
+                raise ParseError("bad compression pointer")
+            pos = target
+            continue
+        if n & 0xC0:
+            raise ParseError(f"label type {n >> 6:02b} (length byte {n:#04x})")
+        labels.append(wire[pos + 1:pos + 1 + n])
+        if len(labels[-1]) != n:
+            raise ParseError("label runs past the end")
+        pos += 1 + n
+    return b".".join(labels), (end if end is not None else pos)
+
+
+def parse_message(wire: bytes) -> dict:
+    if len(wire) < 12:
+        raise ParseError("short header")
+    ident, b3, b4, nq, nan, nns, nar = struct.unpack(">HBBHHHH", wire[:12])
+    out = {"id": ident, "answer": b3 >> 7, "opCode": (b3 >> 3) & 15, "auth": (b3 >> 2) & 1, "trunc": (b3 >> 1) & 1, "recDes": b3 & 1,
+           "recAv": b4 >> 7, "z": (b4 >> 6) & 1, "authenticData": (b4 >> 5) & 1, "checkingDisabled": (b4 >> 4) & 1, "rCode": b4 & 15,
+           "counts": (nq, nan, nns, nar), "queries": [], "sections": [[], [], []], "complete": True}
+    pos = 12
     try:
-        v = const_eval(expr, consts)
-        return v if isinstance(v, str) else None
-    except NotConst:
-        return None
+        for _ in range(nq):
+            name, pos = _p_name(wire, pos)
+            if pos + 4 > len(wire):
+                raise ParseError("question runs past the end")
+            t, c = struct.unpack(">HH", wire[pos:pos + 4])
+            pos += 4
+            out["queries"].append((name, t, c))
+        for si, n in enumerate((nan, nns, nar)):
+            for _ in range(n):
+                name, pos = _p_name(wire, pos)
+                if pos + 10 > len(wire):
+                    raise ParseError("record header runs past the end")
+                t, c, ttl, rdl = struct.unpack(">HHIH", wire[pos:pos + 10])
+                pos += 10
+                if pos + rdl > len(wire):
+                    raise ParseError("RDATA runs past the end")
+                out["sections"][si].append((name, t, c, ttl, wire[pos:pos + rdl], pos))
+                pos += rdl
+    except ParseError:
+        if not out["trunc"]:
+            raise
+        out["complete"] = False
+    if out["complete"] and pos != len(wire):
+        raise ParseError(f"{len(wire) - pos} trailing bytes")
+    return out
 
 
-def _is_pack(c) -> bool:
-    return isinstance(c, ast.Call) and call_name(c) in ("struct.pack", "pack")
+# ---- the interpreted world --------------------------------------------------------------------------------------------
 
+class World:
+    def __init__(self, ctx, mod, consts):
+        self.ctx, self.mod, self.consts = ctx, mod, consts
+        self.cls = module_classes(mod)
+        reg = {}
+        for n, c in self.cls.items():
+            if n.startswith("Record_"):
+                t = class_const(mod, c, "TYPE", consts)
+                if isinstance(t, int):
+                    reg[t] = _ClassRef(c)
+        self.registry = reg
 
-def _is_unpack(c) -> bool:
-    return isinstance(c, ast.Call) and call_name(c) in ("struct.unpack", "unpack")
+    def ev(self) -> MiniEval:
+        return MiniEval(self.mod, consts=self.consts, class_overrides={("Message", "_recordTypes"): dict(self.registry)},
+                        helpers={"nativeString": lambda b: b.decode("ascii") if isinstance(b, bytes) else b, "randomSource": lambda: 4})
 
+    def C(self, name: str) -> ast.ClassDef:
+        return self.cls.get(name) or _fail(f"class {name} vanished")
 
-def _is_read(c) -> bool:
-    return isinstance(c, ast.Call) and call_name(c) == "readPrecisely" and len(c.args) == 2
+    def name(self, b: bytes) -> Inst:
+        return Inst(self.C("Name"), name=b)
 
+    def charstr(self, b: bytes) -> Inst:
+        return Inst(self.C("Charstr"), string=b)
 
-class Enc:
-    def __init__(self, mod, cls, func, consts):
-        self.mod, self.cls, self.f, self.consts = mod, cls, func, consts
-        self.strio = func.args.args[1].arg if len(func.args.args) > 1 else "strio"
-        self.defs = single_defs(func)
-        self.elem: Dict[str, str] = {}
+    def query(self, n: bytes, t: int = 1, c: int = 1) -> Inst:
+        return Inst(self.C("Query"), name=self.name(n), type=t, cls=c)
 
-    def desc(self, a) -> str:
-        a = expand(a, self.defs)
-        if is_self_attr(a):
-            return a.attr
-        if isinstance(a, ast.Call) and call_name(a) == "len" and len(a.args) == 1:
-            x = a.args[0]
-            if is_self_attr(x):
-                return "len:" + x.attr
-            if isinstance(x, ast.Name) and x.id in self.elem:
-                return "len:<elem>"
-        try:
-            return f"const:{const_eval(a, self.consts)!r}"
-        except NotConst:
-            return "expr:" + src(a)
+    def rr(self, owner: bytes, payload: Inst, ttl: int = 3600, type_: Optional[int] = None, cls_: int = 1, auth: bool = False) -> Inst:
+        if type_ is None:
+            type_ = class_const(self.mod, payload.cls, "TYPE", self.consts)
+        payload.fields["ttl"] = ttl
+        return Inst(self.C("RRHeader"), name=self.name(owner), type=type_, cls=cls_, ttl=ttl, payload=payload, auth=auth)
 
-    def write(self, arg) -> List[Tok]:
-        if isinstance(arg, ast.BinOp) and isinstance(arg.op, ast.Add):
-            return self.write(arg.left) + self.write(arg.right)
-        if _is_pack(arg) and arg.args:
-            fmt = _fmt_of(arg.args[0], self.mod, self.cls, self.consts)
-            if fmt is None:
-                return [("?", src(arg))]
-            codes = struct_codes(fmt)
-            if len(codes) != len(arg.args) - 1:
-                return [("?", src(arg))]
-            return [(("raw", self.desc(a)) if c.endswith("s") else ("f", c, self.desc(a))) for c, a in zip(codes, arg.args[1:])]
-        if isinstance(arg, ast.Call) and call_name(arg) == "_ord2bytes" and len(arg.args) == 1:
-            return [("f", "B", self.desc(arg.args[0]))]
-        if isinstance(arg, ast.Name):
-            if arg.id in self.elem:
-                return [("raw", "<elem>")]
-            if arg.id in self.defs:
-                return self.write(self.defs[arg.id])
-            return [("?", src(arg))]
-        if is_self_attr(arg):
-            return [("raw", arg.attr)]
-        if isinstance(arg, ast.Subscript) and is_self_attr(arg.value) and isinstance(arg.slice, ast.Slice):
-            return [("raw", arg.value.attr)]
-        if isinstance(arg, ast.Constant) and isinstance(arg.value, bytes):
-            return [("const", arg.value)]
-        return [("?", src(arg))]
+    def message(self, **kw) -> Inst:
+        f = dict(id=0x1234, answer=0, opCode=0, recDes=0, recAv=0, auth=0, rCode=0, trunc=0, maxSize=0, authenticData=0, checkingDisabled=0,
+                 queries=[], answers=[], authority=[], additional=[])
+        f.update(kw)
+        return Inst(self.C("Message"), **f)
 
-    def block(self, stmts) -> List[Tok]:
-        out: List[Tok] = []
-        for st in stmts:
-            if isinstance(st, ast.Expr) and isinstance(st.value, ast.Constant):
-                continue
-            if isinstance(st, ast.Expr) and isinstance(st.value, ast.Call):
-                c = st.value
-                if isinstance(c.func, ast.Attribute) and c.func.attr == "encode" and c.args and src(c.args[0]) == self.strio:
-                    r = c.func.value
-                    if is_self_attr(r):
-                        out.append(("obj", r.attr))
-                    elif isinstance(r, ast.Name) and r.id in self.elem:
-                        out.append(("obj", "<elem>"))
-                    else:
-                        out.append(("?", src(c)))
-                    continue
-                if call_name(c) == f"{self.strio}.write" and len(c.args) == 1:
-                    out.extend(self.write(c.args[0]))
-                    continue
-            if isinstance(st, ast.If):
-                body, orelse = self.block(st.body), self.block(st.orelse)
-                if body or orelse:
-                    out.append(("if", src(st.test), tuple(body), tuple(orelse)))
-                continue
-            if isinstance(st, ast.For) and isinstance(st.target, ast.Name) and is_self_attr(st.iter):
-                self.elem[st.target.id] = st.iter.attr
-                body = self.block(st.body)
-                del self.elem[st.target.id]
-                out.append(("loop", st.iter.attr, tuple(body)))
-                continue
-            touches = any((isinstance(x, ast.Call) and (call_name(x) or "").startswith(self.strio + ".")) or
-                          (isinstance(x, ast.Call) and call_attr(x) == "encode") for x in ast.walk(st))
-            if touches:
-                out.append(("?", src(st)[:80]))
-        return out
+    def run(self, what, fn):
+        k, v = run_eval(fn)
+        if k == "unsupported":
+            _fail(f"{what} uses a construct outside the interpreted subset: {v}")
+        return k, v
 
+    def to_wire(self, msg: Inst):
+        ev = self.ev()
+        return self.run(f"{msg.cls.name}.toStr", lambda: ev.method(msg, "toStr", []))
 
-class Dec:
-    def __init__(self, mod, cls, func, consts):
-        self.mod, self.cls, self.f, self.consts = mod, cls, func, consts
-        self.strio = func.args.args[1].arg if len(func.args.args) > 1 else "strio"
-        self.toks: List[list] = []
-        self.pending: Dict[str, List[int]] = {}      # local -> token indices waiting for their attribute names
-        self.local_tok: Dict[str, int] = {}          # local -> index of the single token it names
-        self.obj_alias: Dict[str, str] = {}          # local object -> attribute it is stored in
-        self.assigned: List[str] = []                # attributes assigned by decode (for compareAttributes)
+    def from_wire(self, wire: bytes, cls: str = "Message"):
+        ev = self.ev()
+        k, m = self.run(f"{cls}()", lambda: ev.construct(self.C(cls), [], {}))
+        if k != "value":
+            return k, m
+        k, r = self.run(f"{cls}.fromStr", lambda: ev.method(m, "fromStr", [wire]))
+        return (k, m) if k == "value" else (k, r)
 
-    # -- helpers
-    def emit(self, tok: list) -> int:
-        self.toks.append(tok)
-        return len(self.toks) - 1
-
-    def name_target(self, t, idx: int):
-        if self.toks[idx][0] == "raw":
-            if is_self_attr(t):
-                self.toks[idx][1] = t.attr
-                self.assigned.append(t.attr)
-            else:
-                self.toks[idx][1] = "?" + src(t)
-            return
-        if is_self_attr(t):
-            self.toks[idx][2] = t.attr
-            self.assigned.append(t.attr)
-        elif isinstance(t, ast.Name):
-            self.toks[idx][2] = "local:" + t.id
-            self.local_tok[t.id] = idx
-        else:
-            self.toks[idx][2] = "?" + src(t)
-
-    def size_desc(self, n) -> str:
-        if isinstance(n, ast.Name) and n.id in self.local_tok:
-            return "local:" + n.id
-        try:
-            return f"const:{const_eval(n, self.consts)!r}"
-        except NotConst:
-            return "expr:" + src(n)
-
-    def bytes_source(self, e) -> Optional[Tuple[str, object]]:
-        """("read", sizeexpr) for readPrecisely(strio, n) | ("pending", name) for a local holding a raw read | None."""
-        if _is_read(e) and src(e.args[0]) == self.strio:
-            return ("read", e.args[1])
-        if isinstance(e, ast.Name) and e.id in self.pending and len(self.pending[e.id]) == 1 and self.toks[self.pending[e.id][0]][0] == "raw":
-            return ("pending", e.id)
-        return None
-
-    def unpack_tokens(self, call) -> Optional[List[int]]:
-        fmt = _fmt_of(call.args[0], self.mod, self.cls, self.consts) if call.args else None
-        if fmt is None and call.args and isinstance(call.args[0], ast.BinOp) and isinstance(call.args[0].op, ast.Mod) \
-                and isinstance(call.args[0].left, ast.Constant) and isinstance(call.args[0].left.value, str):
-            # a format with computed repeat counts ("!4sB%ds" % n): the field kinds are what matters for the layout
-            fmt = call.args[0].left.value.replace("%d", "1").replace("%i", "1")
-            if "%" in fmt:
-                fmt = None
-        if fmt is None or len(call.args) != 2:
+    # -- equality through the classes' own compareAttributes
+    def compare_attrs(self, inst: Inst) -> Optional[List[str]]:
+        n = inst.cls.name
+        if n == "Name":
+            return ["name"]
+        if n == "Charstr":
+            return ["string"]
+        if n == "Query":
+            return ["name", "type", "cls"]
+        r = mro_lookup(self.mod, inst.cls, "compareAttributes")
+        if r is None:
             return None
-        bs = self.bytes_source(call.args[1])
-        if bs is None:
+        try:
+            return list(ast.literal_eval(r[1]))
+        except ValueError:
+            _fail(f"{n}.compareAttributes is not a literal")
+
+    def diff(self, a, b, path="") -> Optional[str]:
+        if isinstance(a, Inst) and isinstance(b, Inst):
+            if a.cls is not b.cls:
+                return f"{path}: {a.cls.name} became {b.cls.name}"
+            attrs = self.compare_attrs(a)
+            if attrs is None:
+                _fail(f"{a.cls.name} has no compareAttributes")
+            if a.cls.name == "Record_A6":
+                nb = int((128 - a.fields.get("prefixLen", 0)) / 8.0)
+                sa_, sb_ = a.fields.get("suffix", b""), b.fields.get("suffix", b"")
+                if nb and sa_[-nb:] != sb_[-nb:]:
+                    return f"{path}.suffix: {sa_!r} became {sb_!r}"
+                attrs = [x for x in attrs if x != "suffix"]
+            for at in attrs:
+                if at in ("name", "type") and a.cls.name == "_OPTHeader":
+                    continue
+                va = a.fields.get(at, "<unset>")
+                vb = b.fields.get(at, "<unset>")
+                d = self.diff(va, vb, f"{path}.{at}" if path else f"{a.cls.name}.{at}")
+                if d:
+                    return d
             return None
-        codes = struct_codes(fmt)
-        if bs[0] == "pending":
-            idx0 = self.pending.pop(bs[1])[0]
-            # replace the raw placeholder by the unpacked fields, in place
-            new = [(["raw", None, "fmt"] if c.endswith("s") else ["f", c, None]) for c in codes]
-            self.toks[idx0:idx0 + 1] = new
-            shift = len(new) - 1
-            if shift:
-                for k, v in self.pending.items():
-                    self.pending[k] = [i + shift if i > idx0 else i for i in v]
-                for k, v in list(self.local_tok.items()):
-                    if v > idx0:
-                        self.local_tok[k] = v + shift
-            return list(range(idx0, idx0 + len(new)))
-        return [self.emit(["raw", None, "fmt"] if c.endswith("s") else ["f", c, None]) for c in codes]
+        if isinstance(a, list) and isinstance(b, list):
+            if len(a) != len(b):
+                return f"{path}: {len(a)} items became {len(b)}"
+            for i, (x, y) in enumerate(zip(a, b)):
+                d = self.diff(x, y, f"{path}[{i}]")
+                if d:
+                    return d
+            return None
+        if isinstance(a, (Inst, list)) != isinstance(b, (Inst, list)):
+            return f"{path}: {_short(a)} became {_short(b)}"
+        if isinstance(a, bool) or isinstance(b, bool):
+            return None if bool(a) == bool(b) and isinstance(a, (bool, int)) and isinstance(b, (bool, int)) else f"{path}: {a!r} became {b!r}"
+        return None if (a == b and (type(a) is type(b) or isinstance(a, (int, bool)))) else f"{path}: {_short(a)} became {_short(b)}"
 
-    def assign(self, targets, value) -> bool:
-        """Returns True when the statement was understood (or irrelevant)."""
-        tgt = targets[0] if len(targets) == 1 else None
-        if tgt is None:
-            return not self.touches(value)
-        # unpack(...)[0]
-        v = value
-        single = False
-        if isinstance(v, ast.Subscript) and isinstance(v.slice, ast.Constant) and v.slice.value == 0 and _is_unpack(v.value):
-            v = v.value
-            single = True
-        if _is_unpack(v):
-            idxs = self.unpack_tokens(v)
-            if idxs is None:
-                return False
-            if single:
-                if len(idxs) != 1:
-                    return False
-                self.name_target(tgt, idxs[0])
-                return True
-            if isinstance(tgt, (ast.Tuple, ast.List)):
-                if len(tgt.elts) != len(idxs):
-                    return False
-                for t, i in zip(tgt.elts, idxs):
-                    self.name_target(t, i)
-                return True
-            if isinstance(tgt, ast.Name):
-                self.pending[tgt.id] = idxs
-                return True
-            return False
-        if isinstance(v, ast.Call) and call_name(v) == "ord" and len(v.args) == 1 and _is_read(v.args[0]):
-            i = self.emit(["f", "B", None])
-            self.name_target(tgt, i)
-            return True
-        # raw reads (possibly padded: b"\0" * k + readPrecisely(...))
-        reads = [x for x in ast.walk(v) if _is_read(x)]
-        if len(reads) == 1 and not any(_is_unpack(x) for x in ast.walk(v)):
-            r = reads[0]
-            if is_self_attr(tgt):
-                self.emit(["raw", tgt.attr, self.size_desc(r.args[1])])
-                self.assigned.append(tgt.attr)
-                return True
-            if isinstance(tgt, ast.Name) and v is r:
-                i = self.emit(["raw", None, self.size_desc(r.args[1])])
-                self.pending[tgt.id] = [i]
-                return True
-            return False
-        if reads:
-            return False
-        # naming of earlier tokens:  self.a, self.b = r   /  (self.x,) = r  /  self.algorithm = algorithm
-        if isinstance(v, ast.Name) and v.id in self.pending:
-            idxs = self.pending[v.id]
-            ts = tgt.elts if isinstance(tgt, (ast.Tuple, ast.List)) else [tgt]
-            if len(ts) != len(idxs):
-                return False
-            for t, i in zip(ts, idxs):
-                if self.toks[i][0] == "raw":
-                    if is_self_attr(t):
-                        self.toks[i][1] = t.attr
-                        self.assigned.append(t.attr)
-                    else:
-                        return False
-                else:
-                    self.name_target(t, i)
-            del self.pending[v.id]
-            return True
-        if isinstance(v, ast.Name) and is_self_attr(tgt):
-            self.obj_alias[v.id] = tgt.attr
-            self.assigned.append(tgt.attr)
-            for t in self.toks:
-                if t[0] == "obj" and t[1] == "local:" + v.id:
-                    t[1] = tgt.attr
-            return True
-        # plain (non-wire) assignments
-        for t in (tgt.elts if isinstance(tgt, (ast.Tuple, ast.List)) else [tgt]):
-            if is_self_attr(t):
-                self.assigned.append(t.attr)
-        return not self.touches(value)
 
-    def touches(self, node) -> bool:
-        return any(_is_read(x) or _is_unpack(x) or (isinstance(x, ast.Call) and call_attr(x) == "decode") or
-                   (isinstance(x, ast.Name) and x.id == self.strio) for x in ast.walk(node))
+def _short(v) -> str:
+    if isinstance(v, Inst):
+        return f"<{v.cls.name} {', '.join(f'{k}={_short(x)}' for k, x in list(v.fields.items())[:4])}>"
+    if isinstance(v, list):
+        return "[" + ", ".join(_short(x) for x in v[:6]) + ("]" if len(v) <= 6 else ", ..]")
+    if isinstance(v, (bytes, bytearray)) and len(v) > 24:
+        return f"<{len(v)} bytes {bytes(v[:4])!r}..>"
+    return repr(v)
 
-    def block(self, stmts) -> None:
-        for st in stmts:
-            if isinstance(st, ast.Expr) and isinstance(st.value, ast.Constant):
-                continue
-            if isinstance(st, ast.Assign):
-                if not self.assign(st.targets, st.value):
-                    self.emit(["?", src(st)[:80], None])
-                continue
-            if isinstance(st, ast.Expr) and isinstance(st.value, ast.Call):
-                c = st.value
-                if isinstance(c.func, ast.Attribute) and c.func.attr == "decode" and c.args and src(c.args[0]) == self.strio:
-                    r = c.func.value
-                    if is_self_attr(r):
-                        self.emit(["obj", r.attr, None])
-                    elif isinstance(r, ast.Name):
-                        self.emit(["obj", self.obj_alias.get(r.id, "local:" + r.id), None])
-                    else:
-                        self.emit(["?", src(c), None])
+
+def record_samples(w: World) -> Dict[str, List[Inst]]:
+    C, N, S = w.C, w.name, w.charstr
+    out: Dict[str, List[Inst]] = {}
+    for simple in ("NS", "MD", "MF", "CNAME", "MB", "MG", "MR", "PTR", "DNAME"):
+        out["Record_" + simple] = [Inst(C("Record_" + simple), name=N(b"target.example.org"))]
+    out["Record_A"] = [Inst(C("Record_A"), address=b"\x01\x02\x03\x04")]
+    out["Record_AAAA"] = [Inst(C("Record_AAAA"), address=bytes(range(16)))]
+    out["Record_SOA"] = [Inst(C("Record_SOA"), mname=N(b"ns.example.org"), rname=N(b"admin.example.org"), serial=4000000000, refresh=-1, retry=2, expire=2147483647, minimum=4294967295)]
+    out["Record_NULL"] = [Inst(C("Record_NULL"), payload=b"\x00\xffnull"), Inst(C("Record_NULL"), payload=b"")]
+    out["Record_WKS"] = [Inst(C("Record_WKS"), address=b"\x0a\x00\x00\x01", protocol=6, map=b"\x00\x80"), Inst(C("Record_WKS"), address=b"\x0a\x00\x00\x01", protocol=255, map=b"")]
+    out["Record_A6"] = [Inst(C("Record_A6"), prefixLen=0, suffix=bytes(range(1, 17)), prefix=N(b""), bytes=16),
+                        Inst(C("Record_A6"), prefixLen=64, suffix=b"\x00" * 8 + bytes(range(1, 9)), prefix=N(b"pre.example.org"), bytes=8)]
+    out["Record_SRV"] = [Inst(C("Record_SRV"), priority=1, weight=65535, port=5060, target=N(b"sip.example.org"))]
+    out["Record_NAPTR"] = [Inst(C("Record_NAPTR"), order=100, preference=10, flags=S(b"S"), service=S(b"SIP+D2U"), regexp=S(b""), replacement=N(b"_sip._udp.example.org"))]
+    out["Record_AFSDB"] = [Inst(C("Record_AFSDB"), subtype=2, hostname=N(b"afs.example.org"))]
+    out["Record_RP"] = [Inst(C("Record_RP"), mbox=N(b"who.example.org"), txt=N(b"txt.example.org"))]
+    out["Record_HINFO"] = [Inst(C("Record_HINFO"), cpu=b"x86", os=b"linux"), Inst(C("Record_HINFO"), cpu=b"", os=b"")]
+    out["Record_MINFO"] = [Inst(C("Record_MINFO"), rmailbx=N(b"r.example.org"), emailbx=N(b"e.example.org"))]
+    out["Record_MX"] = [Inst(C("Record_MX"), preference=10, name=N(b"mail.example.org"))]
+    out["Record_SSHFP"] = [Inst(C("Record_SSHFP"), algorithm=4, fingerprintType=2, fingerprint=bytes(range(32)))]
+    out["Record_TXT"] = [Inst(C("Record_TXT"), data=[b"k=v", b"", b"tail"]), Inst(C("Record_TXT"), data=[]), Inst(C("Record_TXT"), data=[b"x" * 255])]
+    out["Record_SPF"] = [Inst(C("Record_SPF"), data=[b"v=spf1", b"-all"])]
+    out["Record_TSIG"] = [Inst(C("Record_TSIG"), algorithm=N(b"hmac-sha256"), timeSigned=0xABCDEF012345, fudge=300, MAC=bytes(range(16)), originalID=0xBEEF, error=17, otherData=b"od")]
+    return out
+
+
+def _encode_decode(w: World, msg: Inst, cls: str = "Message"):
+    """-> (problem text or None, wire or None, decoded message or None)"""
+    k, wire = w.to_wire(msg)
+    if k != "value" or not isinstance(wire, bytes):
+        return f"toStr() gives {wire!r} ({k})", None, None
+    k, back = w.from_wire(wire, cls)
+    if k != "value":
+        return f"its own encoding ({len(wire)} bytes, {_short(wire)}) is refused by fromStr(): {back}", wire, None
+    return w.diff(msg, back), wire, back
+
+
+# ---- evaluated rules ---------------------------------------------------------------------------------------------------
+
+def check_records(ctx, w: World):
+    samples = record_samples(w)
+    recs = [n for n in w.cls if n.startswith("Record_")]
+    missing = sorted(set(recs) - set(samples))
+    if missing:
+        ctx.note(f"no sample values for {missing}: only the static registry rules apply to them")
+    ctx.floor("roundtrip/record", len(samples), 26, "record classes with samples")
+    for cname in sorted(samples):
+        with ctx.section(f"record {cname}"):
+            bad = None
+            for payload in samples[cname]:
+                msg = w.message(answer=1, queries=[w.query(b"Host.Example.org", 255)], answers=[w.rr(b"host.example.org", payload, ttl=86400)],
+                                additional=[w.rr(b"tail.example.org", Inst(w.C("Record_A"), address=b"\x7f\x00\x00\x01"), ttl=1)])
+                d, wire, back = _encode_decode(w, msg)
+                if d:
+                    bad = bad or f"{_short(payload)}: {d}"
                     continue
-                # self.data.append(readPrecisely(strio, L))
-                if isinstance(c.func, ast.Attribute) and c.func.attr == "append" and is_self_attr(c.func.value) and len(c.args) == 1 and _is_read(c.args[0]):
-                    self.emit(["raw", "<elem>", self.size_desc(c.args[0].args[1])])
-                    self.loop_attr = c.func.value.attr
-                    continue
-                if not self.touches(st):
-                    continue
-                self.emit(["?", src(st)[:80], None])
-                continue
-            if isinstance(st, ast.If):
-                sub = self.sub(st.body)
-                sub2 = self.sub(st.orelse)
-                if sub or sub2:
-                    self.emit(["if", src(st.test), (tuple(sub), tuple(sub2))])
-                continue
-            if isinstance(st, ast.While):
-                d = Dec(self.mod, self.cls, self.f, self.consts)
-                d.loop_attr = None
-                d.block(st.body)
-                body = d.finish()
-                self.assigned.extend(d.assigned)
-                self.emit(["loop", getattr(d, "loop_attr", None), tuple(body)])
-                continue
-            if isinstance(st, (ast.AugAssign, ast.Pass, ast.Return)) and not self.touches(st):
-                continue
-            if isinstance(st, ast.Raise):
-                continue
-            if self.touches(st):
-                self.emit(["?", src(st)[:80], None])
-
-    def sub(self, stmts) -> List[Tok]:
-        if not stmts:
-            return []
-        d = Dec(self.mod, self.cls, self.f, self.consts)
-        d.local_tok = dict(self.local_tok)
-        d.block(stmts)
-        self.assigned.extend(d.assigned)
-        return d.finish()
-
-    def finish(self) -> List[Tok]:
-        # raw fields sized by a local that names an integer token: that token is the length prefix of the raw field
-        for t in self.toks:
-            if t[0] == "raw" and isinstance(t[2], str) and t[2].startswith("local:"):
-                i = self.local_tok.get(t[2][6:])
-                if i is not None and i < len(self.toks) and self.toks[i][0] == "f":
-                    self.toks[i][2] = "len:" + str(t[1])
-        out: List[Tok] = []
-        for t in self.toks:
-            if t[0] == "raw":
-                out.append(("raw", t[1]))
-            elif t[0] == "obj":
-                out.append(("obj", t[1]))
-            elif t[0] == "if":
-                out.append(("if", t[1], t[2][0], t[2][1]))
-            elif t[0] == "loop":
-                out.append(("loop", t[1], t[2]))
-            elif t[0] == "f":
-                out.append(("f", t[1], t[2]))
-            else:
-                out.append(("?", t[1]))
-        return out
-
-
-def _has_unknown(toks) -> Optional[str]:
-    for t in toks:
-        if t[0] == "?":
-            return str(t[1])
-        if t[0] == "f" and (t[2] is None or str(t[2]).startswith("?")):
-            return "unnamed field"
-        if t[0] == "raw" and (t[1] is None or str(t[1]).startswith(("?", "expr:", "const:"))):
-            return "unnamed raw field"
-        for sub in t[2:]:
-            if isinstance(sub, tuple) and sub and isinstance(sub[0], tuple):
-                u = _has_unknown(sub)
-                if u:
-                    return u
-    return None
-
-
-def _show(toks) -> str:
-    parts = []
-    for t in toks:
-        if t[0] == "f":
-            parts.append(f"{t[1]}:{t[2]}")
-        elif t[0] == "raw":
-            parts.append(f"bytes:{t[1]}")
-        elif t[0] == "obj":
-            parts.append(f"<{t[1]}>")
-        elif t[0] == "const":
-            parts.append(repr(t[1]))
-        elif t[0] == "if":
-            parts.append(f"if {t[1]}: [{_show(t[2])}]" + (f" else [{_show(t[3])}]" if t[3] else ""))
-        elif t[0] == "loop":
-            parts.append(f"each {t[1]}: [{_show(t[2])}]")
-        else:
-            parts.append("?" + str(t[1]))
-    return " ".join(parts)
-
-
-def _formats(func, mod, cls, consts, names) -> List[str]:
-    out = []
-    for c in ast.walk(func):
-        if isinstance(c, ast.Call) and call_name(c) in names and c.args:
-            f = _fmt_of(c.args[0], mod, cls, consts)
-            out.append(f if f is not None else "?" + src(c.args[0]))
-    return sorted(out)
-
-
-def check_rdlength_backpatch(ctx, mod, cls, enc, consts):
-    """RRHeader.encode writes the fixed header with rdlength 0, then the payload, then goes back and patches rdlength.
-    Returns the unconditional statements (the part compared with decode)."""
-    q = f"{Q}.RRHeader.encode"
-    strio = enc.args.args[1].arg
-    ifs = [st for st in enc.body if isinstance(st, ast.If) and src(st.test) == "self.payload"]
-    if len(ifs) != 1 or ifs[0].orelse:
-        _fail("RRHeader.encode: `if self.payload:` block not found")
-    blk = ifs[0].body
-    fmt = class_const(mod, cls, "fmt", consts)
-    last = struct_codes(fmt)[-1] if isinstance(fmt, str) else None
-    tells = [st for st in blk if isinstance(st, ast.Assign) and isinstance(st.value, ast.Call) and call_name(st.value) == f"{strio}.tell" and isinstance(st.targets[0], ast.Name)]
-    pay = [i for i, st in enumerate(blk) if isinstance(st, ast.Expr) and isinstance(st.value, ast.Call) and call_name(st.value) == "self.payload.encode"]
-    ok = len(tells) == 2 and len(pay) == 1 and blk.index(tells[0]) < pay[0] < blk.index(tells[1])
-    ctx.check(ok, "layout/rdlength-backpatch", q + " | <measure payload>", "the payload is not bracketed by two strio.tell() measurements")
-    if not ok:
-        return [st for st in enc.body if st is not ifs[0]]
-    before, after = tells[0].targets[0].id, tells[1].targets[0].id
-    rest = blk[blk.index(tells[1]) + 1:]
-    seeks = [st.value for st in rest if isinstance(st, ast.Expr) and isinstance(st.value, ast.Call) and call_name(st.value) == f"{strio}.seek"]
-    writes = [st.value for st in rest if isinstance(st, ast.Expr) and isinstance(st.value, ast.Call) and call_name(st.value) == f"{strio}.write"]
-    ok = len(seeks) == 2 and len(writes) == 1 and _is_pack(writes[0].args[0])
-    if ok:
-        pk = writes[0].args[0]
-        pf = _fmt_of(pk.args[0], mod, cls, consts)
-        size = struct.calcsize(pf) if pf else None
-        back = ast.parse(f"{before} - {size}", mode="eval").body
-        ok = pf is not None and struct_codes(pf) == [last] and lin_equal(seeks[0].args[0], back, {}) and lin_equal(pk.args[1], ast.parse(f"{after} - {before}", mode="eval").body, {}) \
-            and src(seeks[1].args[0]) == after and rest.index(next(st for st in rest if getattr(st, "value", None) is seeks[0])) < rest.index(next(st for st in rest if getattr(st, "value", None) is writes[0]))
-    ctx.check(ok, "layout/rdlength-backpatch", q + " | <patch rdlength>",
-              f"after the payload the writer must seek to (payload start - size of the last header field {last!r}), write the payload length in that format and seek back to the end")
-    return [st for st in enc.body if st is not ifs[0]]
-
-
-def check_layouts(ctx, mod, consts):
-    classes = [c for c in mod.tree.body if isinstance(c, ast.ClassDef) and ("encode" in methods(c) or "decode" in methods(c)) and "Interface" not in base_names(c)]
-    n_cmp = 0
-    for c in classes:
-        with ctx.section(f"layout {c.name}"):
-            ms = methods(c)
-            q = f"{Q}.{c.name}"
-            if ("encode" in ms) != ("decode" in ms):
-                ctx.violation("layout/both-directions", q, f"{c.name} defines only {'encode' if 'encode' in ms else 'decode'}; the other direction is inherited and no longer matches")
-                continue
-            if c.name in LAYOUT_EXCEPTIONS:
-                ctx.ok("layout/agreement", q, "documented exception: " + LAYOUT_EXCEPTIONS[c.name])
-                continue
-            enc_body = ms["encode"].body
-            if c.name == "RRHeader":
-                enc_body = check_rdlength_backpatch(ctx, mod, c, ms["encode"], consts)
-            e = Enc(mod, c, ms["encode"], consts).block(enc_body)
-            d = Dec(mod, c, ms["decode"], consts)
-            d.block(ms["decode"].body)
-            dt = d.finish()
-            ue, ud = _has_unknown(e), _has_unknown(dt)
-            if ue or ud:
-                # shape outside the recognised idioms: fall back to the multiset of struct formats (never a false alarm on a refactor)
-                fe = _formats(ms["encode"], mod, c, consts, ("struct.pack", "pack"))
-                fd = _formats(ms["decode"], mod, c, consts, ("struct.unpack", "unpack"))
-                if any(x.startswith("?") for x in fe + fd):
-                    _fail(f"{c.name}: layout not recognised ({ue or ud}) and a struct format is not constant: encode {fe}, decode {fd}")
-                ctx.note(f"{c.name}: layout not fully recognised ({ue or ud}); compared struct format multisets instead")
-                ctx.check(fe == fd, "layout/format-multiset", q, f"encode packs {fe}, decode unpacks {fd}")
-                continue
-            n_cmp += 1
-            # strip writer-only constants? none expected outside Name
-            n = max(len(e), len(dt))
-            same = True
-            for i in range(n):
-                a = e[i] if i < len(e) else None
-                b = dt[i] if i < len(dt) else None
-                if a == b:
-                    continue
-                if (c.name, i) in SLOT_EXCEPTIONS and a is not None and b is not None and a[0] == b[0] == "f" and a[1] == b[1]:
-                    continue
-                same = False
-                ctx.violation("layout/agreement", f"{q} | field {i + 1}",
-                              f"{c.name}.encode writes [{_show(e)}] but decode reads [{_show(dt)}]: position {i + 1} is "
-                              f"{_show([a]) if a else 'nothing'} on the wire and {_show([b]) if b else 'nothing'} in the reader")
-                break
-            if same:
-                ctx.ok("layout/agreement", q, _show(e))
-    ctx.floor("layout/agreement", n_cmp, 18, "classes with a fully recognised layout")
-
-    # fixed formats every independent decoder relies on (RFC 1035 3.2.1 / 4.1.2, RFC 6891 6.1.2)
-    with ctx.section("spec formats"):
-        allc = module_classes(mod)
-        for cname, attr, want, why in (("RRHeader", "fmt", "!HHIH", "TYPE(16) CLASS(16) TTL(32) RDLENGTH(16)"),
-                                       ("_OPTVariableOption", "_fmt", "!HH", "OPTION-CODE(16) OPTION-LENGTH(16)")):
-            cc = allc.get(cname) or _fail(cname + " vanished")
-            got = class_const(mod, cc, attr, consts)
-            ctx.check(got == want, "layout/spec-format", f"{Q}.{cname} | {attr}", f"{cname}.{attr} is {got!r}; the wire format is {want!r}: {why}")
-        qe = methods(allc["Query"])["encode"] if "Query" in allc else _fail("Query vanished")
-        qf = [f for c in ast.walk(qe) if _is_pack(c) and c.args for f in [_fmt_of(c.args[0], mod, allc["Query"], consts)]]
-        qcodes = [code for f in qf for code in (struct_codes(f) if f else ["?"])]
-        ctx.check(qcodes == ["H", "H"] and all(f and f[0] in "!>" for f in qf), "layout/spec-format", f"{Q}.Query | <format>",
-                  f"a question is written with {qf}; the wire format is QTYPE(16) QCLASS(16) in network byte order")
-
-    # byte accounting inside length-delimited records
-    for c in classes:
-        with ctx.section(f"byte accounting {c.name}"):
-            dec = methods(c).get("decode")
-            if dec is None or len(dec.args.args) < 3:
-                continue
-            lname = dec.args.args[2].arg
-            strio = dec.args.args[1].arg
-            q = f"{Q}.{c.name}.decode"
-            # (i) `readPrecisely(strio, length - K)`: K is the number of bytes read before it
-            fixed = 0
-            for st in dec.body:
-                reads = [x for x in ast.walk(st) if _is_read(x)]
-                for r in reads:
-                    sz = r.args[1]
-                    if isinstance(sz, ast.BinOp) and isinstance(sz.op, ast.Sub) and src(sz.left) == lname:
-                        try:
-                            k = const_eval(sz.right, consts)
-                        except NotConst:
-                            k = None
-                        ctx.check(fixed is not None and k == fixed, "layout/remainder-size", ctx.construct(q, r),
-                                  f"the rest of the record is read as {src(sz)} bytes after {fixed} bytes of fixed fields: the field must take exactly rdlength - {fixed} bytes "
-                                  "(else it eats into, or leaves bytes for, the next record)")
-                        fixed = None
-                    elif fixed is not None:
-                        try:
-                            v = const_eval(sz, consts)
-                            fixed = fixed + v if isinstance(v, int) else None
-                        except NotConst:
-                            fixed = None
-                if any(isinstance(x, ast.Call) and call_attr(x) == "decode" for x in ast.walk(st)):
-                    fixed = None
-            # (ii) `while soFar < length:` loops account for every byte they consume
-            for lp in [st for st in dec.body if isinstance(st, ast.While)]:
-                t = lp.test
-                if not (isinstance(t, ast.Compare) and len(t.ops) == 1 and isinstance(t.ops[0], ast.Lt) and isinstance(t.left, ast.Name) and src(t.comparators[0]) == lname):
-                    continue
-                ctr = t.left.id
-                incs = [st for st in lp.body if isinstance(st, ast.AugAssign) and isinstance(st.op, ast.Add) and isinstance(st.target, ast.Name) and st.target.id == ctr]
-                sizes = [src(r.args[1]) for st in lp.body for r in ast.walk(st) if _is_read(r)]
-                total = ast.parse(" + ".join(sizes) or "0", mode="eval").body
-                ctx.check(len(incs) == 1 and lin_equal(incs[0].value, total, {}, consts), "layout/loop-accounting", f"{q} | {ctr}",
-                          f"each iteration reads {' + '.join(sizes)} bytes but advances `{ctr}` by {src(incs[0].value) if incs else 'nothing'}: the loop runs past (or stops short of) rdlength")
-                init = [st for st in dec.body if isinstance(st, ast.Assign) and any(isinstance(x, ast.Name) and x.id == ctr for x in st.targets)]
-                ctx.check(len(init) == 1 and isinstance(init[0].value, ast.Constant) and init[0].value.value == 0, "layout/loop-accounting", f"{q} | {ctr} = 0", f"`{ctr}` does not start at 0")
-
-    # Record_TSIG: total fixed sizes agree (48-bit time)
-    with ctx.section("Record_TSIG"):
-        cls = module_classes(mod).get("Record_TSIG") or _fail("Record_TSIG vanished")
-        ms = methods(cls)
-        enc_sizes = []
-        for cc in ast.walk(ms["encode"]):
-            if _is_pack(cc):
-                f = _fmt_of(cc.args[0], mod, cls, consts)
-                par = getattr(cc, "_parent", None)
-                size = struct.calcsize(f) if f else None
-                if isinstance(par, ast.Subscript) and isinstance(par.slice, ast.Slice) and par.slice.lower is not None and par.slice.upper is None:
-                    try:
-                        size -= const_eval(par.slice.lower, consts)
-                    except NotConst:
-                        size = None
-                enc_sizes.append(size)
-        dec_sizes = []
-        for cc in ast.walk(ms["decode"]):
-            if _is_read(cc):
                 try:
-                    dec_sizes.append(const_eval(cc.args[1], consts))
-                except NotConst:
-                    pass
-        ctx.check(None not in enc_sizes and sum(enc_sizes) == sum(dec_sizes) == 16, "layout/tsig-fixed-part", f"{Q}.Record_TSIG",
-                  f"fixed-size parts: encode writes {enc_sizes} bytes, decode reads {dec_sizes} bytes (6-byte time + fudge + MAC size, then id + error + other size)")
-        for cc in ast.walk(ms["decode"]):
-            if _is_unpack(cc):
-                f = _fmt_of(cc.args[0], mod, cls, consts)
-                arg = cc.args[1]
-                pad = 0
-                rd = None
-                for x in ([arg.left, arg.right] if isinstance(arg, ast.BinOp) else [arg]):
-                    if isinstance(x, ast.Constant) and isinstance(x.value, bytes):
-                        pad += len(x.value)
-                    elif _is_read(x):
-                        rd = const_eval(x.args[1], consts)
-                ctx.check(f is not None and rd is not None and struct.calcsize(f) == pad + rd, "layout/tsig-fixed-part", f"{Q}.Record_TSIG.decode | {src(cc.args[0])}",
-                          f"unpack({f!r}) needs {struct.calcsize(f) if f else '?'} bytes, it is given {pad}+{rd}")
+                    p = parse_message(wire)
+                except ParseError as e:
+                    bad = bad or f"{_short(payload)} encodes to a message an independent parser rejects: {e}"
+                    continue
+                a = p["sections"][0]
+                want_t = class_const(w.mod, payload.cls, "TYPE", w.consts)
+                if p["counts"] != (1, 1, 0, 1) or len(a) != 1 or a[0][:4] != (b"host.example.org", want_t, 1, 86400) or p["sections"][2][0][4] != b"\x7f\x00\x00\x01":
+                    bad = bad or f"{_short(payload)}: an independent parser reads counts {p['counts']} and answer {a[0][:4] if a else None} (expected owner host.example.org, type {want_t}, ttl 86400) " \
+                                 "or finds the following record displaced (RDLENGTH does not frame the RDATA)"
+            ctx.check(bad is None, "roundtrip/record", f"{Q}.{cname} | encode/decode", bad or "", detail=f"{len(samples[cname])} instances inside a message")
+    # unknown type and opaque payloads
+    with ctx.section("unknown record types"):
+        bad = None
+        for data in (b"", b"\x01\x02\x03", b"x" * 300):
+            u = Inst(w.C("UnknownRecord"), data=data)
+            msg = w.message(answers=[w.rr(b"u.example.org", u, ttl=5, type_=65280), w.rr(b"after.example.org", Inst(w.C("Record_A"), address=b"\x09\x09\x09\x09"), ttl=6)])
+            d, wire, back = _encode_decode(w, msg)
+            if d:
+                bad = bad or f"a record of unregistered type 65280 with {len(data)} bytes of RDATA: {d}"
+        ctx.check(bad is None, "roundtrip/unknown-type", f"{Q}.UnknownRecord | encode/decode", bad or "")
 
 
-# ---------------------------------------------------------------------------------------------------------------
-# Name.encode limits (F32), header bits, sections, truncation, registry, compareAttributes
+def check_header(ctx, w: World):
+    flags = ("answer", "auth", "trunc", "recDes", "recAv", "authenticData", "checkingDisabled")
+    cases = [dict()] + [{f: 1} for f in flags] + [{f: 1 for f in flags}] + [{"opCode": v} for v in (1, 2, 4, 5, 15)] + [{"rCode": v} for v in (1, 3, 5, 15)] + \
+        [{"id": v} for v in (0, 1, 65535)] + [dict({f: 1 for f in flags}, opCode=15, rCode=15, id=65535)]
+    bad = None
+    for kw in cases:
+        if kw.get("trunc"):
+            pass
+        msg = w.message(queries=[w.query(b"example.org")], **kw)
+        d, wire, back = _encode_decode(w, msg)
+        if d:
+            bad = bad or f"header {kw}: {d}"
+            continue
+        p = parse_message(wire)
+        for f in flags + ("opCode", "rCode", "id"):
+            if p[f] != msg.fields[f]:
+                bad = bad or f"header {kw}: an independent parser reads {f}={p[f]} (RFC 1035 4.1.1 / RFC 2535 6.1 bit positions); the message has {f}={msg.fields[f]}"
+        if p["z"]:
+            bad = bad or f"header {kw}: the reserved Z bit is set"
+    ctx.check(bad is None, "roundtrip/header", f"{Q}.Message | <header fields>", bad or "", detail=f"{len(cases)} flag/opcode/rcode/id combinations")
+    # sections with distinct counts
+    A = lambda i: Inst(w.C("Record_A"), address=bytes([10, 0, 0, i]))
+    msg = w.message(answer=1, queries=[w.query(b"q1.example.org"), w.query(b"q2.example.org", 28)],
+                    answers=[w.rr(b"a1.example.org", A(1))], authority=[w.rr(b"n%d.example.org" % i, A(10 + i)) for i in range(2)],
+                    additional=[w.rr(b"x%d.example.org" % i, A(20 + i)) for i in range(3)])
+    d, wire, back = _encode_decode(w, msg)
+    bad = d
+    if not bad:
+        p = parse_message(wire)
+        if p["counts"] != (2, 1, 2, 3) or [len(s) for s in p["sections"]] != [1, 2, 3] or [r[4][3] for s in p["sections"] for r in s] != [1, 10, 11, 20, 21, 22]:
+            bad = f"an independent parser reads counts {p['counts']} and records {[r[4] for s in p['sections'] for r in s]}: the sections are not written in the order answers, authority, additional"
+    ctx.check(bad is None, "roundtrip/sections", f"{Q}.Message | <four sections, counts 2/1/2/3>", bad or "")
 
-def check_name_limits(ctx, mod, consts):
-    f = ctx.func(DNS, "Name.encode")
-    g = ctx.cfg(f)
+
+def check_compression(ctx, w: World):
+    A = lambda i: Inst(w.C("Record_A"), address=bytes([10, 0, i // 256, i % 256]))
+    NS = lambda n: Inst(w.C("Record_NS"), name=w.name(n))
+    scenarios = {
+        "shared suffixes": [w.rr(b"example.org", A(1)), w.rr(b"www.example.org", A(2)), w.rr(b"ftp.example.org", NS(b"www.example.org")), w.rr(b"org", A(3)), w.rr(b"a.b.c.example.org", NS(b"c.example.org"))],
+        "case variants": [w.rr(b"Example.ORG", A(1)), w.rr(b"example.org", A(2)), w.rr(b"WWW.example.org", NS(b"www.Example.org"))],
+        "repeated name": [w.rr(b"same.example.org", A(i)) for i in range(5)],
+        "root and single labels": [w.rr(b"", NS(b"a")), w.rr(b"a", NS(b"")), w.rr(b"b.a", A(1))],
+        "63-byte labels": [w.rr(b"x" * 63 + b".example.org", NS(b"y" * 63 + b"." + b"x" * 63 + b".example.org"))],
+    }
+    nested, n = [], b"example.org"
+    for i in range(40):
+        nested.append(w.rr(n, A(i)))
+        n = b"h%d." % i + n
+    scenarios["40 nested levels (one more pointer hop per level)"] = nested
+    for label, answers in scenarios.items():
+        msg = w.message(answer=1, queries=[w.query(answers[0].fields["name"].fields["name"])], answers=answers)
+        d, wire, back = _encode_decode(w, msg)
+        bad = d
+        if not bad:
+            try:
+                p = parse_message(wire)
+                got = [r[0] for r in p["sections"][0]]
+                want = [a.fields["name"].fields["name"] for a in answers]
+                if got != want:
+                    bad = f"an independent parser reads the owner names {got!r}; the message has {want!r}"
+            except ParseError as e:
+                bad = f"an independent parser rejects the encoding: {e}"
+        ctx.check(bad is None, "roundtrip/compression", f"{Q}.Name | <{label}>", (f"names with {label}: " + bad) if bad else "")
+
+
+def check_name_limits(ctx, w: World):
     q = Q + ".Name.encode"
-    strio = f.args.args[1].arg
-    # the label-length byte written
-    writes = g.find(lambda x: isinstance(x, ast.Call) and call_name(x) == f"{strio}.write" and len(x.args) == 1 and isinstance(x.args[0], ast.Call)
-                    and call_name(x.args[0]) in ("_ord2bytes", "bytes", "struct.pack", "pack"))
-    len_writes = []
-    ptr_writes = []
-    for n in writes:
-        call = next(x for x in walk_local(g.node(n).ast) if isinstance(x, ast.Call) and call_name(x) == f"{strio}.write")
-        inner = call.args[0]
-        if call_name(inner) == "_ord2bytes":
-            len_writes.append((n, inner.args[0]))
-        elif _is_pack(inner) and any(isinstance(x, ast.BinOp) and isinstance(x.op, ast.BitOr) for x in ast.walk(inner)):
-            ptr_writes.append((n, inner))
-    ctx.need(len_writes, "label length write in Name.encode")
-    ctx.need(ptr_writes, "compression pointer write in Name.encode")
-    all_label_guarded = True
-    for n, v in len_writes:
-        vt = src(v)
-        ok = False
-        for t, lab in g.edge_guards(n):
-            fm = lincmp(g.node(t).ast, consts, negate=(lab == "F"))
-            if fm is not None and dict(fm[0]).get(vt, 0) < 0 and set(k for k, _ in fm[0]) == {vt} and -fm[1] <= 63 and fm[1] <= 0:
-                # -v >= -c  with c <= 63
-                ok = True
-            if fm is not None and f"len(label)" in dict(fm[0]) and dict(fm[0])["len(label)"] < 0 and -fm[1] <= 63:
-                ok = True
-        all_label_guarded = all_label_guarded and ok
-        ctx.check(ok, "name/label-length-limit", ctx.construct(q, g.node(n).ast),
-                  "Name(b'a'*64 + b'.com').encode() writes the length byte 0x40 and a 200-byte label writes 0xc8: the two top bits of that byte mean "
-                  "'compression pointer' to every reader, so the name is not refused and does not decode to itself (labels are limited to 63 bytes)")
-    for n, inner in ptr_writes:
-        off = next((x for x in ast.walk(inner) if isinstance(x, ast.BinOp) and isinstance(x.op, ast.BitOr)), None)
-        operand = off.right if isinstance(off.left, ast.Constant) else off.left
-        ot = src(operand)
-        ok = False
-        for t, lab in g.edge_guards(n):
-            fm = lincmp(g.node(t).ast, consts, negate=(lab == "F"))
-            if fm is not None and set(k for k, _ in fm[0]) == {ot} and dict(fm[0])[ot] < 0 and -fm[1] <= 0x3FFF:
-                ok = True
-        ctx.check(ok, "name/pointer-offset-limit", ctx.construct(q, g.node(n).ast),
-                  "a name that was first written at offset >= 0x4000 is referenced with 0xC000 | offset, which a reader decodes as offset & 0x3FFF: "
-                  "in a 26 KiB message the last owner name decodes to bytes from the middle of another record")
-        # the pointer marker and format
-        fmt = _fmt_of(inner.args[0], mod, ctx.cls(DNS, "Name"), consts)
-        mark = off.left if isinstance(off.left, ast.Constant) else off.right
-        ctx.check(fmt == "!H" and isinstance(mark, ast.Constant) and mark.value == 0xC000, "name/pointer-form", q + " | <compression pointer form>",
-                  f"a compression pointer is written as pack({fmt!r}, {src(off)}); RFC 1035 4.1.4 requires two bytes with the top two bits set (0xC000 | offset)")
-    # offsets recorded relative to the message start
-    recs = [st for st in statements(f) if isinstance(st, ast.Assign) and any(isinstance(t, ast.Subscript) and src(t.value) == "compDict" for t in st.targets)]
-    ok = len(recs) == 1 and lin_equal(recs[0].value, ast.parse(f"{strio}.tell() + Message.headerSize", mode="eval").body, {})
-    ctx.check(ok, "name/pointer-form", q + " | <recorded offset>", "the offset remembered for later back-references is not `position in the body + header size`: "
-              "pointers would not address the start of the name within the message")
-    # decoder side of the pointer: (l & 63) << 8 | next byte, taken when the two top bits are set
-    d = _name_label_reader(ctx)
-    dq = f"{Q}.Name.{d.name}"
-    ptr = [st for st in statements(d) if isinstance(st, ast.Assign) and any(isinstance(x, ast.BinOp) and isinstance(x.op, ast.LShift) for x in ast.walk(st.value))]
-    ok = False
-    if len(ptr) == 1:
-        expr = ptr[0].value
-        # evaluate the decoder's pointer expression against the RFC form on a grid
-        cands = {x.id for x in ast.walk(expr) if isinstance(x, ast.Name)} - {"ord", "readPrecisely", d.args.args[1].arg}
-        lname = next(iter(cands)) if len(cands) == 1 else None
-        ok = lname is not None
-        for hi in (0xC0, 0xC1, 0xFF, 0xE8):
-            for lo in (0, 1, 0x7F, 0xFF):
-                e2 = fresh(expr)
-                for x in ast.walk(e2):
-                    if isinstance(x, ast.Call) and call_name(x) == "ord":
-                        x.func = ast.Name(id="int", ctx=ast.Load())
-                        x.args = [ast.Constant(value=lo)]
-                try:
-                    v = const_eval(e2, {lname: hi})
-                except NotConst:
-                    ok = False
-                    break
-                if v != (((hi << 8) | lo) & 0x3FFF):
-                    ok = False
-    ctx.check(ok, "name/pointer-form", dq + " | <pointer value>", "the decoder does not compute the 14-bit offset ((first & 0x3F) << 8) | second of a compression pointer")
-    tests = [t for t in ast.walk(d) if isinstance(t, ast.Compare) and any(isinstance(x, ast.BinOp) and isinstance(x.op, ast.RShift) for x in ast.walk(t))]
-    okt = False
-    if len(tests) == 1:
-        lname = next((x.id for x in ast.walk(tests[0]) if isinstance(x, ast.Name)), None)
+    ctx.func(DNS, "Name.encode")
+    ev = w.ev()
+    buf = io.BytesIO()
+    k, r = w.run("Name.encode", lambda: ev.method(w.name(b"a" * 64 + b".com"), "encode", [buf, None]))
+    ctx.check(k == "raised", "name/label-length-limit", q + " | <label longer than 63 bytes>",
+              "Name(b'a'*64 + b'.com').encode() writes the length byte 0x40 and a 200-byte label writes 0xc8: the two top bits of that byte mean "
+              "'compression pointer' to every reader, so the name is not refused and does not decode to itself (labels are limited to 63 bytes)")
+    buf = io.BytesIO()
+    comp = {b"example.org": 0x4001}
+    k, r = w.run("Name.encode", lambda: ev.method(w.name(b"www.example.org"), "encode", [buf, comp]))
+    out = buf.getvalue()
+    mis = k == "value" and out.endswith(struct.pack(">H", 0xC000 | 0x4001)) or (k == "value" and len(out) >= 2 and out[-2] & 0xC0 == 0xC0 and out[-1] != 0 and ((out[-2] & 0x3F) << 8 | out[-1]) != 0x4001 and not out.endswith(b"\x03org\x00"))
+    ctx.check(not mis, "name/pointer-offset-limit", q + " | <compression pointer to an offset >= 0x4000>",
+              "a name that was first written at offset >= 0x4000 is referenced with 0xC000 | offset, which a reader decodes as offset & 0x3FFF: "
+              "in a 26 KiB message the last owner name decodes to bytes from the middle of another record")
+    # pointers and offsets are relative to the start of the message
+    buf = io.BytesIO(b"")
+    comp2: Dict[bytes, int] = {}
+    k, r = w.run("Name.encode", lambda: ev.method(w.name(b"www.example.org"), "encode", [buf, comp2]))
+    hs = 12
+    ctx.check(k == "value" and comp2 == {b"www.example.org": hs, b"example.org": hs + 4, b"org": hs + 12} and buf.getvalue() == b"\x03www\x07example\x03org\x00",
+              "name/pointer-form", q + " | <offsets recorded>", f"encoding www.example.org at body offset 0 records {comp2!r} and writes {buf.getvalue()!r}; every suffix must be remembered at "
+              "its offset from the start of the message (header size 12)")
+    buf = io.BytesIO()
+    k, r = w.run("Name.encode", lambda: ev.method(w.name(b"ftp.example.org"), "encode", [buf, {b"example.org": 0x0123}]))
+    ctx.check(k == "value" and buf.getvalue() == b"\x03ftp\xc1\x23", "name/pointer-form", q + " | <pointer written>",
+              f"ftp.example.org with example.org known at offset 0x123 is written as {buf.getvalue()!r}; expected b'\\x03ftp\\xc1\\x23' (RFC 1035 4.1.4)")
+
+
+def check_truncation(ctx, w: World):
+    q = Q + ".Message.encode"
+    A = lambda i: Inst(w.C("Record_A"), address=bytes([10, 0, 0, i]))
+    mk = lambda limit: w.message(answer=1, maxSize=limit, queries=[w.query(b"example.org")], answers=[w.rr(b"r%02d.example.org" % i, A(i)) for i in range(12)])
+    k, full = w.to_wire(mk(0))
+    if k != "value":
+        _fail(f"Message.toStr raises {full}")
+    size = len(full)
+    bad = None
+    for limit in (size + 1, size, size - 1, size - 17, 100, 40, 13):
+        msg = mk(limit)
+        k, wire = w.to_wire(msg)
+        if k != "value":
+            bad = bad or f"limit {limit}: toStr() raises {wire}"
+            continue
+        must_cut = size > limit
         try:
-            okt = all(bool(const_eval(tests[0], {lname: b})) == (b >= 0xC0) for b in range(256))
-        except NotConst:
-            okt = False
-    ctx.check(okt, "name/pointer-form", dq + " | <pointer test>", "the decoder does not treat exactly the bytes 0xC0..0xFF as the first byte of a compression pointer")
-    return all_label_guarded
-
-
-def _name_label_reader(ctx) -> ast.FunctionDef:
-    """The method of Name that reads length bytes and follows pointers (Name.decode today; a helper after a refactor)."""
-    cls = ctx.cls(DNS, "Name")
-    cands = [m for m in methods(cls).values()
-             if any(isinstance(x, ast.Call) and call_name(x) == "ord" for x in ast.walk(m))
-             and any(isinstance(x, ast.Call) and call_attr(x) == "seek" for x in ast.walk(m))
-             and any(isinstance(x, ast.BinOp) and isinstance(x.op, ast.LShift) for x in ast.walk(m))]
-    if len(cands) != 1:
-        _fail(f"Name: the method that reads labels and follows compression pointers was not identified ({[m.name for m in cands]})")
-    ctx.functions.add(f"{DNS}:Name.{cands[0].name}")
-    return cands[0]
-
-
-def check_name_reader(ctx, mod, consts, encoder_limits_labels: bool):
-    """Writer/reader agreement on compression: Name.encode chains suffix pointers without any bound (h2.h1.example.com after
-    h1.example.com after example.com adds one hop per nesting level), so the only input Name.decode may refuse while following
-    pointers is a true cycle - a target already visited in this name.  Any other rejection is a condition the writer does not
-    respect, i.e. Twisted would refuse its own valid output."""
-    f = _name_label_reader(ctx)
-    g = ctx.cfg(f)
-    q = f"{Q}.Name.{f.name}"
-    defs = single_defs(f)
-    seeks = g.find(lambda x: isinstance(x, ast.Call) and call_attr(x) == "seek")
-    loops = [x for x in ast.walk(f) if isinstance(x, ast.While)]
-    if len(loops) != 1:
-        _fail("Name.decode: the label loop was not found exactly once")
-    loop = loops[0]
-    heads = g.ids(lambda n: n.kind == "join" and n.ast is loop)
-    ptr_defs = [st for st in statements(f) if isinstance(st, ast.Assign) and len(st.targets) == 1 and isinstance(st.targets[0], ast.Name)
-                and any(isinstance(x, ast.BinOp) and isinstance(x.op, ast.LShift) for x in ast.walk(st.value))]
-    if len(ptr_defs) != 1:
-        _fail("Name: the assignment computing the pointer target was not found exactly once")
-    target = ptr_defs[0].targets[0].id
-    jump = [s_ for s_ in seeks if any(isinstance(x, ast.Call) and call_attr(x) == "seek" and [src(a) for a in x.args[:1]] == [target] for x in walk_local(g.node(s_).ast))]
-    if not jump:
-        _fail(f"Name: no seek({target}) (pointer following) was found")
-    # the length-byte variable and the pointer test
-    ptests = []
-    for t in g.ids(lambda n: n.kind == "test"):
-        te = g.node(t).ast
-        names = {x.id for x in ast.walk(te) if isinstance(x, ast.Name)}
-        if len(names) != 1:
+            p = parse_message(wire)
+        except ParseError as e:
+            bad = bad or f"limit {limit} (full size {size}): an independent parser rejects the {len(wire)}-byte output: {e}"
             continue
-        nm = next(iter(names))
-        try:
-            tv = [bool(const_eval(te, {nm: b})) for b in range(256)]
-        except (NotConst, TypeError):
+        if len(wire) > limit:
+            bad = bad or f"limit {limit}: the output has {len(wire)} bytes"
+        if bool(p["trunc"]) != must_cut:
+            bad = bad or f"limit {limit}, full size {size}: the TC bit on the wire is {p['trunc']} although the message {'was' if must_cut else 'was not'} cut"
+        if not must_cut and wire != full:
+            bad = bad or f"limit {limit} >= full size {size}: the output differs from the unlimited encoding"
+        if must_cut and len(wire) != limit:
+            bad = bad or f"limit {limit}: the cut output has {len(wire)} bytes instead of using the limit"
+        kk, back = w.from_wire(wire)
+        if kk != "value":
+            bad = bad or f"limit {limit}: decoding the truncated message raises {back}"
             continue
-        if tv == [b >= 0xC0 for b in range(256)]:
-            ptests.append((t, "T", nm))
-        elif tv == [b < 0xC0 for b in range(256)]:
-            ptests.append((t, "F", nm))
-    if len(ptests) != 1:
-        _fail("Name.decode: the test selecting the compression-pointer branch (first byte >= 0xC0) was not found exactly once")
-    pt, plab, lvar = ptests[0]
+        got = back.fields.get("answers", [])
+        want = msg.fields["answers"][:len(got)]
+        d = w.diff(want, got, "answers")
+        if d or len(got) > 12 or (not must_cut and len(got) != 12):
+            bad = bad or f"limit {limit}: the decoded answers are not a prefix of the original records ({d or str(len(got)) + ' records'})"
+        if bool(back.fields.get("trunc")) != must_cut:
+            bad = bad or f"limit {limit}: decoded trunc={back.fields.get('trunc')!r}"
+    ctx.check(bad is None, "truncation/limit", q + " | <size limits around the exact size>", bad or "", detail=f"full size {size}; limits size+1, size, size-1, ... 13")
 
-    def membership(n: int):
-        """(container, ) if node n is dominated by `target in C` being false."""
-        for t, lab in g.edge_guards(n):
-            te = g.node(t).ast
-            if isinstance(te, ast.Name) and te.id in defs:
-                te = defs[te.id]
-            if isinstance(te, ast.Compare) and len(te.ops) == 1 and src(te.left) == target:
-                if (isinstance(te.ops[0], ast.In) and lab == "T") or (isinstance(te.ops[0], ast.NotIn) and lab == "F"):
-                    return src(te.comparators[0])
-        return None
 
-    raises = g.ids(lambda n: n.kind == "stmt" and isinstance(n.ast, ast.Raise))
-    n_sites = 0
-    containers = set()
-    for r in raises:
-        n_sites += 1
-        cons = ctx.construct(q, g.node(r).ast)
-        in_branch = any(t == pt and lab == plab for t, lab in g.edge_guards(r))
-        cont = membership(r)
-        if cont is not None:
-            containers.add(cont)
-            ctx.ok("name/reader-accepts-writer", cons, f"only when `{target}` was already visited in this name (a true cycle, which the writer never produces)")
+def check_edns(ctx, w: World):
+    q = Q + "._EDNSMessage"
+    for name in ("_toMessage", "_fromMessage", "fromStr", "toStr"):
+        ctx.func(DNS, f"_EDNSMessage.{name}")
+    A = lambda i: Inst(w.C("Record_A"), address=bytes([10, 0, 0, i]))
+    base = dict(id=7, answer=False, opCode=0, auth=False, trunc=False, recDes=True, recAv=False, rCode=0, ednsVersion=0, dnssecOK=False, authenticData=False,
+                checkingDisabled=False, maxSize=4096, queries=[], answers=[], authority=[], additional=[])
+    cases = [dict(), dict(ednsVersion=None, maxSize=512), dict(dnssecOK=True), dict(ednsVersion=1), dict(rCode=16), dict(rCode=0xABC), dict(rCode=0xFFF, dnssecOK=True, ednsVersion=255, maxSize=65535),
+             dict(rCode=5, maxSize=1232), dict(answer=True, auth=True, recAv=True, authenticData=True, checkingDisabled=True)]
+    bad = None
+    for kw in cases:
+        f = dict(base)
+        f.update(kw)
+        f["queries"] = [w.query(b"example.org")]
+        f["answers"] = [w.rr(b"example.org", A(1), auth=f["auth"])]
+        f["additional"] = [w.rr(b"extra.example.org", A(2), auth=f["auth"])]
+        msg = Inst(w.C("_EDNSMessage"), **f)
+        d, wire, back = _encode_decode(w, msg, "_EDNSMessage")
+        if d:
+            bad = bad or f"_EDNSMessage({kw}): {d}"
             continue
-        # a rejection of reserved label types (length byte 64..191) is tolerated once the writer refuses such labels itself
-        gl = [(g.node(t).ast, lab) for t, lab in g.edge_guards(r)]
-        only_reserved = False
-        for te, lab in gl:
-            names = {x.id for x in ast.walk(te) if isinstance(x, ast.Name)}
-            if names == {lvar}:
-                try:
-                    rej = [b for b in range(256) if bool(const_eval(te, {lvar: b})) == (lab == "T")]
-                except (NotConst, TypeError):
-                    continue
-                if rej and min(rej) >= 64 and max(rej) < 0xC0:
-                    only_reserved = True
-        if only_reserved and encoder_limits_labels and not in_branch:
-            ctx.ok("name/reader-accepts-writer", cons, "length bytes 64..191 only; the writer refuses labels longer than 63 bytes")
+        p = parse_message(wire)
+        opts = [r for r in p["sections"][2] if r[1] == 41]
+        if f["ednsVersion"] is None:
+            if opts:
+                bad = bad or f"_EDNSMessage({kw}): an OPT record is sent although EDNS is off"
             continue
-        conds = " and ".join(f"{'' if lab == 'T' else 'not '}({src(te)})" for te, lab in gl if not (isinstance(te, ast.Constant)))
-        ctx.violation("name/reader-accepts-writer", cons,
-                      f"Name.decode refuses a name when {conds or 'this point is reached'}: Name.encode enforces no such limit - it chains suffix pointers "
-                      "(example.com, h1.example.com, h2.h1.example.com, ... one more hop per nesting level) and writes names of any length - so a message Twisted "
-                      "itself encoded is rejected on decoding; while following pointers only a target already visited in the same name (a real cycle) may be refused")
-    ctx.floor("name/reader-accepts-writer", n_sites, 1, "raise sites in Name.decode")
-    # the pointer branch always follows the pointer (no quiet give-up)
-    tsucc = [d for d, l in g.succ[pt] if l == plab]
-    ok_raises = [r for r in raises if membership(r) is not None]
-    quiet = g.path([x for x in tsucc if x not in jump and x not in ok_raises], [g.exit] + heads, avoid=set(jump) | set(ok_raises), edge_ok=lambda a, b, l: l != "exc")
-    ctx.check(quiet is None, "name/reader-accepts-writer", q + " | <pointer always followed>",
-              "a compression pointer can be skipped or end the name without being followed: the suffix it refers to is lost", witness=g.describe(quiet))
-    # the visited container only ever receives the offsets jumped to
-    for cont in sorted(containers):
-        bad = []
-        inits = 0
-        body_ids = {id(x) for x in ast.walk(loop)}
-        for st in ast.walk(f):
-            if isinstance(st, (ast.Assign, ast.AnnAssign, ast.AugAssign)) and any(isinstance(x, ast.Name) and x.id == cont and isinstance(x.ctx, ast.Store) for x in ast.walk(st)):
-                v = getattr(st, "value", None)
-                empty = isinstance(v, (ast.List, ast.Set, ast.Tuple, ast.Dict)) and not getattr(v, "elts", getattr(v, "keys", None)) or \
-                    (isinstance(v, ast.Call) and call_name(v) in ("set", "list", "dict") and not v.args)
-                if isinstance(st, ast.Assign) and empty and id(st) not in body_ids:
-                    inits += 1
-                else:
-                    bad.append(src(st))
-            if isinstance(st, ast.Call) and isinstance(st.func, ast.Attribute) and src(st.func.value) == cont:
-                if st.func.attr in ("add", "append") and [src(a) for a in st.args] == [target]:
-                    continue
-                if st.func.attr in ("__contains__", "count", "index", "copy"):
-                    continue
-                bad.append(src(st))
-        params = [a.arg for a in f.args.args]
-        if inits == 0 and cont in params:
-            # the container is handed in by the callers inside the class: each must pass a fresh empty one (or pass its own on)
-            pos = params.index(cont) - 1
-            sites = [c for m in methods(ctx.cls(DNS, "Name")).values() for c in ast.walk(m) if isinstance(c, ast.Call) and call_name(c) == f"self.{f.name}"]
-            fresh_ok = bool(sites)
-            for c in sites:
-                a = c.args[pos] if pos < len(c.args) else next((k.value for k in c.keywords if k.arg == cont), None)
-                emptyc = isinstance(a, ast.Call) and call_name(a) in ("set", "list") and not a.args or (isinstance(a, (ast.List, ast.Set)) and not a.elts)
-                if not (emptyc or (isinstance(a, ast.Name) and a.id == cont)):
-                    fresh_ok = False
-            if fresh_ok:
-                inits = 1
-        ctx.check(inits == 1 and not bad, "name/reader-accepts-writer", q + f" | {cont}",
-                  f"`{cont}` must start empty before the loop and only ever receive the offsets jumped to ({cont}.add({target})); found: {bad or 'no single empty initialisation'} - "
-                  "otherwise an offset that was never visited can be taken for a cycle")
+        if len(opts) != 1:
+            bad = bad or f"_EDNSMessage({kw}): {len(opts)} OPT records on the wire"
+            continue
+        name, t, c, ttl, rdata, _ = opts[0]
+        want_ttl = ((f["rCode"] >> 4) << 24) | (f["ednsVersion"] << 16) | (int(f["dnssecOK"]) << 15)
+        if name != b"" or c != f["maxSize"] or ttl != want_ttl or p["rCode"] != f["rCode"] & 15:
+            bad = bad or f"_EDNSMessage({kw}): the OPT record on the wire has name {name!r}, CLASS {c}, TTL {ttl:#010x}, header RCODE {p['rCode']}; RFC 6891 6.1 requires root name, " \
+                         f"CLASS = payload size {f['maxSize']}, TTL = {want_ttl:#010x} (ext. RCODE | version | DO), header RCODE = {f['rCode'] & 15}"
+    ctx.check(bad is None, "roundtrip/edns", q + " | toStr/fromStr", bad or "", detail=f"{len(cases)} EDNS parameter sets")
+    # OPT options
+    with ctx.section("OPT options"):
+        opt = Inst(w.C("_OPTHeader"), udpPayloadSize=1232, extendedRCODE=3, version=0, dnssecOK=True,
+                   options=[Inst(w.C("_OPTVariableOption"), code=3, data=b"nsid"), Inst(w.C("_OPTVariableOption"), code=10, data=b""), Inst(w.C("_OPTVariableOption"), code=65001, data=b"x" * 300)])
+        ev = w.ev()
+        buf = io.BytesIO()
+        k, r = w.run("_OPTHeader.encode", lambda: ev.method(opt, "encode", [buf, None]))
+        bad = None
+        if k != "value":
+            bad = f"_OPTHeader.encode raises {r}"
+        else:
+            k2, o2 = w.run("_OPTHeader()", lambda: ev.construct(w.C("_OPTHeader"), [], {}))
+            k3, r3 = w.run("_OPTHeader.decode", lambda: ev.method(o2, "decode", [io.BytesIO(buf.getvalue())]))
+            bad = f"_OPTHeader.decode raises {r3}" if k3 != "value" else w.diff(opt, o2)
+            if not bad:
+                wire = buf.getvalue()
+                want = b"\x00" + struct.pack(">HHIH", 41, 1232, (3 << 24) | (1 << 15), 4 + 4 + 4 + 0 + 4 + 300) + struct.pack(">HH", 3, 4) + b"nsid" + struct.pack(">HH", 10, 0) + struct.pack(">HH", 65001, 300) + b"x" * 300
+                if wire != want:
+                    bad = f"the OPT record with three options is written as {_short(wire)}; RFC 6891 6.1.2 layout is {_short(want)}"
+        ctx.check(bad is None, "roundtrip/edns", Q + "._OPTHeader | encode/decode with options", bad or "")
 
 
-_HEADER_BITS = {  # attribute -> (byte index 3|4, shift, width)   RFC 1035 4.1.1, RFC 2535 6.1
-    "answer": (3, 7, 1), "opCode": (3, 3, 4), "auth": (3, 2, 1), "trunc": (3, 1, 1), "recDes": (3, 0, 1),
-    "recAv": (4, 7, 1), "authenticData": (4, 5, 1), "checkingDisabled": (4, 4, 1), "rCode": (4, 0, 4),
+_ROUNDTRIP_CASES = {
+    "Record_TXT": (("data",), [([],), ([b""],), ([b"", b"a"],), ([b"k=v", b"", b"tail"],), ([b"a", b""],), ([b"x" * 255],), ([b"x" * 256],), ([b"a", b"x" * 255, b""],)]),
+    "Record_SPF": (("data",), [([b""],), ([b"v=spf1", b"", b"-all"],)]),
+    "Record_HINFO": (("cpu", "os"), [(b"", b""), (b"", b"linux"), (b"x86", b""), (b"c" * 255, b"o"), (b"c" * 256, b"o")]),
+    "Charstr": (("string",), [(b"",), (b"a",), (b"s" * 255,), (b"s" * 256,)]),
+    "_OPTVariableOption": (("code", "data"), [(3, b""), (3, b"abc"), (65535, b"\x00" * 300)]),
+    "UnknownRecord": (("data",), [(b"",), (b"xyz",)]),
+    "Record_NULL": (("payload",), [(b"",), (b"xyz",)]),
+    "Record_SSHFP": (("algorithm", "fingerprintType", "fingerprint"), [(1, 2, b""), (4, 1, b"f" * 20)]),
+    "Record_WKS": (("address", "protocol", "map"), [(b"\x01\x02\x03\x04", 6, b""), (b"\x01\x02\x03\x04", 17, b"\x00\x80")]),
 }
 
 
-def _attr_names(expr, recv="self"):
-    return attrs_to_names(expr, recv)
-
-
-def check_header(ctx, mod, consts):
-    cls = ctx.cls(DNS, "Message")
-    enc = ctx.func(DNS, "Message.encode")
-    dec = ctx.func(DNS, "Message.decode")
-    q = Q + ".Message"
-    hf = class_const(mod, cls, "headerFmt", consts)
-    hs = class_const(mod, cls, "headerSize", consts)
-    ctx.check(isinstance(hf, str) and struct.calcsize(hf) == 12 and struct_codes(hf) == ["H", "B", "B", "H", "H", "H", "H"], "header/format", q + " | headerFmt",
-              f"the header format is {hf!r}; RFC 1035 4.1.1 fixes id(16) flags(8+8) and four 16-bit counts = 12 bytes")
-    hsx = class_assigns(cls).get("headerSize")
-    ctx.check(hsx is not None and src(hsx) in ("struct.calcsize(headerFmt)", "12"), "header/format", q + " | headerSize", f"headerSize is {src(hsx) if hsx is not None else None}, not the size of headerFmt")
-    # encode side
-    packs = [c for c in ast.walk(enc) if _is_pack(c) and c.args and is_self_attr(c.args[0], "headerFmt")]
-    if len(packs) != 1 or len(packs[0].args) != 8:
-        _fail("Message.encode: struct.pack(self.headerFmt, id, b3, b4, n, n, n, n) not found")
-    pa = packs[0].args[1:]
-    edefs = single_defs(enc)
-    b3e, b4e = _attr_names(expand(pa[1], edefs)), _attr_names(expand(pa[2], edefs))
-    ctx.check(src(pa[0]) == "self.id", "header/fields", q + ".encode | id", f"the first header field written is {src(pa[0])}, not self.id")
-    # decode side
-    ups = [st for st in statements(dec) if isinstance(st, ast.Assign) and isinstance(st.targets[0], ast.Tuple) and len(st.targets[0].elts) == 7]
-    if len(ups) != 1:
-        _fail("Message.decode: 7-way unpacking of the header not found")
-    tg = ups[0].targets[0].elts
-    ctx.check(src(tg[0]) == "self.id", "header/fields", q + ".decode | id", f"the first header field is stored in {src(tg[0])}, not self.id")
-    b3n, b4n = src(tg[1]), src(tg[2])
-    ddefs = single_defs(dec)
-    vsrc = expand(ups[0].value, ddefs)
-    okh = _is_unpack(vsrc) and is_self_attr(vsrc.args[0], "headerFmt") and _is_read(vsrc.args[1]) and is_self_attr(vsrc.args[1].args[1], "headerSize")
-    ctx.check(okh, "header/format", q + ".decode | <header read>", "the header is not read as struct.unpack(self.headerFmt, readPrecisely(strio, self.headerSize))")
-    dexprs: Dict[str, ast.expr] = {}
-    for st in statements(dec):
-        if isinstance(st, ast.Assign) and len(st.targets) == 1 and is_self_attr(st.targets[0]) and any(isinstance(x, ast.Name) and x.id in (b3n, b4n) for x in ast.walk(st.value)):
-            dexprs[st.targets[0].attr] = st.value
-    ctx.check(set(dexprs) == set(_HEADER_BITS), "header/flags", q + ".decode | <flag set>",
-              f"flags decoded: {sorted(dexprs)}; the header carries {sorted(_HEADER_BITS)}")
-    zbad = None
-    for attr, (byte, shift, width) in _HEADER_BITS.items():
-        bad = None
-        vals = list(range(1 << width))
-        for bg in (0, 1):  # background: all other flags clear / set
-            for v in vals:
-                env = {f"self__{a}": ((1 << _HEADER_BITS[a][2]) - 1) * bg for a in _HEADER_BITS}
-                env[f"self__{attr}"] = v
-                try:
-                    e3, e4 = const_eval(b3e, env), const_eval(b4e, env)
-                except NotConst as ex:
-                    _fail(f"Message.encode flag bytes not evaluable: {ex}")
-                got = ((e3 if byte == 3 else e4) >> shift) & ((1 << width) - 1)
-                if got != v and not bad:
-                    bad = f"encode: {attr}={v} (other flags {'set' if bg else 'clear'}) gives byte{byte}={(e3 if byte == 3 else e4):#04x}; RFC puts {attr} at bits {shift + width - 1}..{shift}"
-                if not (0 <= e3 <= 255 and 0 <= e4 <= 255) and not bad:
-                    bad = f"encode: flag bytes out of range ({e3}, {e4}) for {attr}={v}"
-                if e4 & 0x40:
-                    zbad = zbad or f"encode: {attr}={v} (other flags {'set' if bg else 'clear'}) sets the reserved Z bit (byte4={e4:#04x})"
-                if attr in dexprs:
-                    # decode the RFC-positioned bytes
-                    b3v = sum((((1 << w) - 1) * bg if a != attr else v) << s for a, (b, s, w) in _HEADER_BITS.items() if b == 3)
-                    b4v = sum((((1 << w) - 1) * bg if a != attr else v) << s for a, (b, s, w) in _HEADER_BITS.items() if b == 4)
-                    try:
-                        back = const_eval(dexprs[attr], {b3n: b3v, b4n: b4v})
-                    except NotConst as ex:
-                        _fail(f"Message.decode flag expression not evaluable: {ex}")
-                    if back != v and not bad:
-                        bad = f"decode: bytes ({b3v:#04x}, {b4v:#04x}) carry {attr}={v} but `{src(dexprs[attr])}` yields {back}"
-        ctx.check(bad is None, "header/flags", q + f" | {attr}", bad or "", detail=f"{2 * len(vals)} evaluations each way")
-    ctx.check(zbad is None, "header/flags", q + " | <reserved Z bit>", zbad or "")
-    # counts <-> sections, same order both ways
-    sections_enc = []
-    for st in enc.body:
-        if isinstance(st, ast.For) and is_self_attr(st.iter) and any(isinstance(c, ast.Call) and call_attr(c) == "encode" for c in ast.walk(st)):
-            sections_enc.append(src(st.iter))
-        elif isinstance(st, ast.For) and isinstance(st.iter, (ast.Tuple, ast.List)) and all(is_self_attr(e) for e in st.iter.elts) \
-                and any(isinstance(c, ast.Call) and call_attr(c) == "encode" for c in ast.walk(st)):
-            sections_enc.extend(src(e) for e in st.iter.elts)
-    if not sections_enc:
-        _fail("Message.encode: the loops writing the four sections were not recognised")
-    counts_enc = [src(a.args[0]) if isinstance(a, ast.Call) and call_name(a) == "len" and a.args else src(a) for a in pa[3:]]
-    ctx.check(sections_enc == counts_enc == ["self.queries", "self.answers", "self.authority", "self.additional"], "header/sections", q + ".encode | <section order>",
-              f"sections are written in the order {sections_enc} and counted as {counts_enc}; both must be queries, answers, authority, additional")
-    cn = [src(t) for t in tg[3:]]
-    qloop = [st for st in dec.body if isinstance(st, ast.For) and isinstance(st.iter, ast.Call) and call_name(st.iter) == "range"]
-    okq = len(qloop) == 1 and [src(a) for a in qloop[0].iter.args] == [cn[0]] and any(isinstance(x, ast.Call) and call_name(x) == "self.queries.append" for x in ast.walk(qloop[0]))
-    items = [st for st in statements(dec) if isinstance(st, ast.Assign) and isinstance(st.value, ast.Tuple) and all(isinstance(e, ast.Tuple) and len(e.elts) == 2 for e in st.value.elts) and len(st.value.elts) == 3]
-    pairs = [(src(e.elts[0]), src(e.elts[1])) for e in items[0].value.elts] if len(items) == 1 else []
-    ctx.check(okq and pairs == [("self.answers", cn[1]), ("self.authority", cn[2]), ("self.additional", cn[3])], "header/sections", q + ".decode | <section order>",
-              f"the decoder reads {cn[0]} queries then {pairs}; the counts unpacked are {cn} in header order")
-
-
-def check_opt(ctx, mod, consts):
-    enc = ctx.func(DNS, "_OPTHeader.encode")
-    frm = ctx.func(DNS, "_OPTHeader.fromRRHeader")
-    q = Q + "._OPTHeader"
-    rr = [c for c in ast.walk(enc) if isinstance(c, ast.Call) and call_name(c) == "RRHeader"]
-    if len(rr) != 1:
-        _fail("_OPTHeader.encode: RRHeader(...) construction not found")
-    kw = {k.arg: k.value for k in rr[0].keywords}
-    ret = [c for c in ast.walk(frm) if isinstance(c, ast.Call) and call_name(c) == "cls"]
-    if len(ret) != 1:
-        _fail("_OPTHeader.fromRRHeader: cls(...) construction not found")
-    dk = {k.arg: k.value for k in ret[0].keywords}
-    rrn = frm.args.args[1].arg
-    ctx.check("cls" in kw and src(kw["cls"]) == "self.udpPayloadSize" and "udpPayloadSize" in dk and src(dk["udpPayloadSize"]) == f"{rrn}.cls", "opt/fields", q + " | udpPayloadSize",
-              "the requestor's UDP payload size does not travel in the CLASS field both ways")
-    ctx.check("type" in kw and src(kw["type"]) == "self.type", "opt/fields", q + " | type", "the OPT pseudo-record is not written with its own type")
-    need = ("extendedRCODE", "version", "dnssecOK")
-    if "ttl" not in kw or not all(k in dk for k in need):
-        _fail("_OPTHeader: ttl= / extendedRCODE= / version= / dnssecOK= keywords not found")
-    te = _attr_names(kw["ttl"])
-    bad = None
-    n = 0
-    for e in (0, 1, 0x80, 0xFF):
-        for v in (0, 1, 0x80, 0xFF):
-            for d in (0, 1, False, True):
+def check_leaf_codecs(ctx, w: World):
+    for cname, (attrs, samples) in _ROUNDTRIP_CASES.items():
+        with ctx.section(f"leaf codec {cname}"):
+            c = w.C(cname)
+            bad = None
+            n = 0
+            for vals in samples:
+                ev = w.ev()
+                src_inst = Inst(c, **{a: (list(v) if isinstance(v, list) else v) for a, v in zip(attrs, vals)})
+                buf = io.BytesIO()
+                k, r = w.run(f"{cname}.encode", lambda: ev.method(src_inst, "encode", [buf]))
                 n += 1
-                try:
-                    ttl = const_eval(te, {"self__extendedRCODE": e, "self__version": v, "self__dnssecOK": d})
-                except NotConst as ex:
-                    _fail(f"_OPTHeader.encode ttl expression not evaluable: {ex}")
-                want = e << 24 | v << 16 | int(d) << 15
-                if ttl != want and not bad:
-                    bad = f"encode: extendedRCODE={e} version={v} dnssecOK={d} gives TTL {ttl:#010x}; RFC 6891 6.1.3 requires {want:#010x}"
-                for name, val in (("extendedRCODE", e), ("version", v), ("dnssecOK", d)):
-                    x = _attr_names(dk[name], rrn)
-                    try:
-                        back = const_eval(x, {f"{rrn}__ttl": want})
-                    except NotConst as ex:
-                        _fail(f"_OPTHeader.fromRRHeader {name} expression not evaluable: {ex}")
-                    if back != val and not bad:
-                        bad = f"decode: TTL {want:#010x} carries {name}={val} but `{src(dk[name])}` yields {back}"
-    ctx.check(bad is None, "opt/ttl-bits", q + " | <TTL bit fields>", bad or "", detail=f"{n} grid points both ways")
-    # options: payload bytes are the concatenation of the encoded options; decoded until exhausted
-    loop = [st for st in enc.body if isinstance(st, ast.For) and src(st.iter) == "self.options"]
-    okw = len(loop) == 1 and "payload" in kw and isinstance(kw["payload"], ast.Call) and call_name(kw["payload"]) == "UnknownRecord"
-    wl = [st for st in ast.walk(frm) if isinstance(st, ast.While)]
-    okr = len(wl) == 1 and any(isinstance(c, ast.Call) and call_attr(c) == "decode" for c in ast.walk(wl[0])) and any(isinstance(c, ast.Call) and call_name(c) == "options.append" for c in ast.walk(wl[0]))
-    ctx.check(okw and okr, "opt/fields", q + " | options", "the variable options are not written as the record payload and read back until the payload is exhausted")
+                shown = ", ".join(f"{a}={_short(v)}" for a, v in zip(attrs, vals))
+                if k == "raised":
+                    fits = all(len(x) <= 255 for v in vals for x in (v if isinstance(v, list) else [v]) if isinstance(x, bytes)) or cname in ("UnknownRecord", "Record_NULL", "_OPTVariableOption")
+                    if fits:
+                        bad = bad or f"{cname}({shown}).encode() raises {r} although every item fits the format"
+                    continue
+                wire = buf.getvalue()
+                dst = Inst(c)
+                k, r = w.run(f"{cname}.decode", lambda: ev.method(dst, "decode", [io.BytesIO(wire), len(wire)]))
+                if k == "raised":
+                    bad = bad or f"{cname}({shown}) encodes to {_short(wire)} which {cname}.decode refuses with {r}"
+                    continue
+                for a, v in zip(attrs, vals):
+                    got = dst.fields.get(a, "<unset>")
+                    if got != v or type(got) is not type(v):
+                        bad = bad or f"{cname}({shown}) encodes to {_short(wire)} and decodes to {a}={_short(got)}"
+            ctx.check(bad is None, "roundtrip/empty-and-boundary-items", f"{Q}.{cname} | encode/decode", bad or "", detail=f"{n} concrete instances interpreted")
 
 
-def check_edns(ctx, mod, consts):
-    """_EDNSMessage <-> Message + OPT record: the same fields travel both ways; the 12-bit rCode is split 8/4 and rejoined."""
-    to = ctx.func(DNS, "_EDNSMessage._toMessage")
-    frm = ctx.func(DNS, "_EDNSMessage._fromMessage")
-    q = Q + "._EDNSMessage"
-    mk = [c for c in ast.walk(to) if isinstance(c, ast.Call) and call_name(c) == "self._messageFactory"]
-    ok_ = [c for c in ast.walk(to) if isinstance(c, ast.Call) and call_name(c) == "_OPTHeader"]
-    if len(mk) != 1 or len(ok_) != 1:
-        _fail("_EDNSMessage._toMessage: message/OPT construction not found")
-    mkw = {k.arg: k.value for k in mk[0].keywords}
-    okw = {k.arg: k.value for k in ok_[0].keywords}
-    msgp = frm.args.args[1].arg
-    back = [c for c in ast.walk(frm) if isinstance(c, ast.Call) and call_name(c) == "cls"]
-    if len(back) != 1:
-        _fail("_EDNSMessage._fromMessage: cls(...) construction not found")
-    bkw = {k.arg: k.value for k in back[0].keywords}
-    # plain header fields: written from self.X, read back from message.X
-    plain = ("id", "answer", "opCode", "auth", "trunc", "recDes", "recAv", "authenticData", "checkingDisabled")
-    for a in plain:
-        ctx.check(a in mkw and src(mkw[a]) == f"self.{a}" and a in bkw and src(bkw[a]) == f"{msgp}.{a}", "edns/field-mapping", f"{q} | {a}",
-                  f"`{a}` does not travel as Message.{a} in both directions (to: {src(mkw[a]) if a in mkw else None}, from: {src(bkw[a]) if a in bkw else None})")
-    for sec in ("queries", "answers", "authority"):
-        copied = any(isinstance(st, ast.Assign) and src(st.targets[0]).endswith("." + sec) and src(st.value) in (f"self.{sec}[:]", f"list(self.{sec})", f"self.{sec}") for st in statements(to))
-        ctx.check(copied and sec in bkw and src(bkw[sec]) in (f"{msgp}.{sec}[:]", f"list({msgp}.{sec})", f"{msgp}.{sec}"), "edns/field-mapping", f"{q} | {sec}",
-                  f"section `{sec}` is not copied unchanged in both directions")
-    # OPT-carried fields
-    opt_assign = {}
-    optv = None
-    for st in statements(frm):
-        if isinstance(st, ast.Assign) and len(st.targets) == 1 and isinstance(st.targets[0], ast.Attribute) and isinstance(st.targets[0].value, ast.Name) \
-                and st.targets[0].value.id not in ("self",) and isinstance(st.value, (ast.Attribute, ast.BinOp)):
-            opt_assign[st.targets[0].attr] = st.value
-    for mine, theirs in (("ednsVersion", "version"), ("dnssecOK", "dnssecOK"), ("maxSize", "udpPayloadSize")):
-        w = okw.get(theirs)
-        r = opt_assign.get(mine)
-        ctx.check(w is not None and src(w) == f"self.{mine}" and r is not None and isinstance(r, ast.Attribute) and r.attr == theirs, "edns/field-mapping", f"{q} | {mine}",
-                  f"`{mine}` is written to OPT.{theirs} as {src(w) if w is not None else None} and read back from {src(r) if r is not None else None}")
-    # rCode split
-    lo, hi, join = mkw.get("rCode"), okw.get("extendedRCODE"), opt_assign.get("rCode")
-    bad = None
-    if lo is None or hi is None or join is None:
-        bad = "the rCode split (Message.rCode / OPT.extendedRCODE) or its recombination was not found"
-    else:
-        names = sorted({x.value.id for x in ast.walk(join) if isinstance(x, ast.Attribute) and isinstance(x.value, ast.Name)})
-        for r in (0, 1, 15, 16, 17, 0xFF, 0x100, 0xABC, 0xFFF):
-            try:
-                l = const_eval(attrs_to_names(lo), {"self__rCode": r})
-                h = const_eval(attrs_to_names(hi), {"self__rCode": r})
-                e = fresh(join)
-                for nm in names:
-                    e = attrs_to_names(e, nm)
-                env = {f"{nm}__extendedRCODE": h for nm in names}
-                env.update({f"{nm}__rCode": l for nm in names})
-                j = const_eval(e, env)
-            except NotConst as ex:
-                _fail(f"_EDNSMessage rCode expressions not evaluable: {ex}")
-            if not (0 <= l <= 15 and 0 <= h <= 255 and j == r) and not bad:
-                bad = f"rCode {r:#05x} is sent as Message.rCode={l}, OPT.extendedRCODE={h} and received as {j:#05x}; RFC 6891 6.1.3: lower 4 bits in the header, upper 8 bits in OPT"
-    ctx.check(bad is None, "edns/rcode-split", f"{q} | rCode", bad or "")
-    # the OPT record is looked for in the additional section and removed from it
-    loop = [st for st in frm.body if isinstance(st, ast.For) and src(st.iter) == f"{msgp}.additional"]
-    okl = len(loop) == 1 and any(isinstance(t, ast.Compare) and src(t) in (f"{loop[0].target.id}.type == OPT", f"OPT == {loop[0].target.id}.type") for t in ast.walk(loop[0]))
-    ctx.check(okl, "edns/field-mapping", f"{q}._fromMessage | <OPT extraction>", "OPT pseudo-records are not separated from message.additional by their type")
-    app = [c for c in ast.walk(to) if isinstance(c, ast.Call) and call_attr(c) == "append" and src(c.func.value).endswith(".additional")]
-    tg = ctx.cfg(to)
-    nodes = [n for c in app for n in tg.ids_of(c)]
-    ctx.check(bool(nodes) and all(tg.guarded(n, lambda e: src(e) == "self.ednsVersion is not None", True) for n in nodes), "edns/field-mapping", f"{q}._toMessage | <OPT appended>",
-              "the OPT record is not appended to the additional section exactly when ednsVersion is set")
+def check_decoded_fields_compared(ctx, w: World):
+    """Every attribute a decoder sets takes part in == (else a mangled field would go unnoticed); evaluated on the decoded sample records."""
+    allowed = {("RRHeader", "rdlength"): "derived from the payload length", ("Record_A6", "bytes"): "derived from prefixLen"}
+    samples = record_samples(w)
+    for cname in sorted(samples):
+        with ctx.section(f"compared fields {cname}"):
+            payload = samples[cname][0]
+            msg = w.message(answers=[w.rr(b"host.example.org", payload)])
+            k, wire = w.to_wire(msg)
+            if k != "value":
+                continue
+            k, back = w.from_wire(wire)
+            if k != "value" or not back.fields.get("answers"):
+                continue
+            dec = back.fields["answers"][0].fields.get("payload")
+            if not isinstance(dec, Inst):
+                continue
+            attrs = w.compare_attrs(dec) or []
+            fresh_k, fresh_o = w.run(f"{cname}()", lambda: w.ev().construct(dec.cls, [], {}))
+            base = set(fresh_o.fields) if fresh_k == "value" else set()
+            for a in sorted(dec.fields):
+                if a in attrs or a.startswith("_") or (dec.cls.name, a) in allowed or a == "ttl":     # ttl comes from the enclosing header (constructor argument)
+                    continue
+                if a in base and dec.fields.get(a) == (fresh_o.fields.get(a) if fresh_k == "value" else None):
+                    continue
+                ctx.violation("equality/decoded-fields-compared", f"{Q}.{cname} | {a}",
+                              f"{cname}.decode sets self.{a} but compareAttributes {tuple(attrs)} ignores it: two records differing only there compare equal "
+                              "(a round trip would not notice a mangled field)")
+            ctx.ok("equality/decoded-fields-compared", f"{Q}.{cname} | <decoded fields>", f"{sorted(dec.fields)}")
 
 
-def check_truncation(ctx, mod, consts):
-    f = ctx.func(DNS, "Message.encode")
-    g = ctx.cfg(f)
-    q = Q + ".Message.encode"
-    defs = single_defs(f)
-    # body variable: the one sliced
-    cuts = g.ids(lambda n: n.kind == "stmt" and isinstance(n.ast, ast.Assign) and isinstance(n.ast.value, ast.Subscript) and isinstance(n.ast.value.slice, ast.Slice)
-                 and isinstance(n.ast.targets[0], ast.Name) and src(n.ast.value.value) == n.ast.targets[0].id)
-    ctx.check(len(cuts) == 1, "truncation/cut", q + " | <body cut>", f"{len(cuts)} statements cut the encoded body (exactly one expected)")
-    sets = g.ids(lambda n: n.kind == "stmt" and isinstance(n.ast, ast.Assign) and any(is_self_attr(t, "trunc") for t in n.ast.targets))
-    ctx.check(len(sets) == 1 and isinstance(g.node(sets[0]).ast.value, ast.Constant) and g.node(sets[0]).ast.value.value == 1, "truncation/flag", q + " | self.trunc",
-              "the truncation flag is not set to 1 at exactly one place of encode")
-    if len(cuts) != 1 or len(sets) != 1:
-        return
-    cut = g.node(cuts[0]).ast
-    body = cut.targets[0].id
-    # `size` may be a local: len(body) + self.headerSize.  body is assigned twice (getvalue, cut) so expand by hand.
-    size_defs = {k: v for k, v in defs.items()}
-    exp = lin_expect({f"len({body})": 1, "self.headerSize": 1, "self.maxSize": -1}, 1)
-    for n in (cuts[0], sets[0]):
-        forms = [norm_cmp(g.node(t).ast, size_defs, consts, negate=(lab == "F")) for t, lab in g.edge_guards(n)]
-        forms = [fm for fm in forms if fm is not None]
-        ctx.check(exp in forms, "truncation/boundary", ctx.construct(q, g.node(n).ast),
-                  ("this runs when `" + " and ".join(fmt_lin(fm) for fm in forms) + "`" if forms else "this is not guarded by a size comparison") +
-                  f"; a message must be truncated exactly when `{fmt_lin(exp)}` (one of exactly maxSize bytes fits and must keep trunc=0)")
-        ctx.check(g.guarded(n, lambda e: src(e) == "self.maxSize", True), "truncation/boundary", ctx.construct(q, g.node(n).ast) + " | unlimited",
-                  "maxSize == 0 means 'no limit'; the truncation branch must not run then")
-    up = cut.value.slice.upper
-    ctx.check(cut.value.slice.lower is None and up is not None and lin_equal(up, ast.parse("self.maxSize - self.headerSize", mode="eval").body, defs, consts), "truncation/cut",
-              q + " | <body cut length>", f"the body is cut to [{src(cut.value.slice.lower) if cut.value.slice.lower else ''}:{src(up) if up else ''}]; header + body must be exactly maxSize bytes")
-    # the flag byte is computed after trunc is set; the header is written after the cut
-    flag_uses = g.ids(lambda n: n.kind == "stmt" and n.id not in sets and any(is_self_attr(x, "trunc") and isinstance(x.ctx, ast.Load) for x in ast.walk(n.ast)))
-    ctx.need(flag_uses, "use of self.trunc in Message.encode")
-    bad = g.path(flag_uses, sets, edge_ok=lambda a, b, l: l != "exc")
-    ctx.check(bad is None, "truncation/flag", q + " | <flag before header>", "the flags byte is computed before trunc is set: a truncated message goes out with TC=0",
-              witness=g.describe(bad))
-    wr = g.find(lambda x: isinstance(x, ast.Call) and call_attr(x) == "write" and len(x.args) == 1 and src(x.args[0]) == body)
-    bad = g.path(wr, cuts, edge_ok=lambda a, b, l: l != "exc")
-    ctx.check(bool(wr) and bad is None, "truncation/cut", q + " | <cut before write>", "the body is written before it is cut to the limit", witness=g.describe(bad))
-
-    # decoding a truncated message: stop at EOFError, append only complete records
-    for qual in ("Message.decode", "Message.parseRecords"):
-        d = ctx.func(DNS, qual)
-        gd = ctx.cfg(d, exception_is_all=True)
-        decs = gd.find(lambda x: isinstance(x, ast.Call) and call_attr(x) == "decode")
-        apps = gd.find(lambda x: isinstance(x, ast.Call) and call_attr(x) == "append")
-        ctx.need(decs, f"decode calls in {qual}")
-        for n in decs:
-            hs = [h for h, l in gd.succ[n] if l == "exc" and gd.node(h).kind == "handler"]
-            ok = any(gd.node(h).ast.type is not None and "EOFError" in src(gd.node(h).ast.type) for h in hs)
-            okret = ok and all(must_pass(gd, [h], gd.ids(lambda m: m.kind == "stmt" and isinstance(m.ast, ast.Return)), to=apps or None) is None for h in hs if "EOFError" in src(gd.node(h).ast.type or ast.Constant(value="")))
-            ctx.check(ok and okret, "truncation/prefix-on-eof", ctx.construct(f"{Q}.{qual}", gd.node(n).ast),
-                      "running out of data inside this element does not end decoding quietly (the records decoded so far must be kept, the partial one dropped)")
-        for a in apps:
-            # an append is reached only after the decode calls of the same iteration succeeded
-            pre = [n for n in decs if gd.path([n], [a], edge_ok=lambda x, y, l: l != "exc")]
-            via_exc = gd.path([n for n in decs], [a], edge_ok=lambda x, y, l: True, avoid=[])
-            handlers_to_app = [h for n in decs for h, l in gd.succ[n] if l == "exc" and gd.path([h], [a], avoid=gd.ids(lambda m: m.kind == "for"))]
-            ctx.check(bool(pre) and not handlers_to_app, "truncation/prefix-on-eof", ctx.construct(f"{Q}.{qual}", gd.node(a).ast),
-                      "an element is appended although its decoding failed")
-
+# ---- static registry rules ---------------------------------------------------------------------------------------------
 
 def check_registry(ctx, mod, consts):
     classes = module_classes(mod)
@@ -1187,253 +610,100 @@ def check_registry(ctx, mod, consts):
         init = mro_lookup(mod, c, "__init__")
         ok = init is not None and isinstance(init[1], ast.FunctionDef) and (any(a.arg == "ttl" for a in init[1].args.args + init[1].args.kwonlyargs) or init[1].args.kwarg is not None)
         ctx.check(ok, "registry/constructible", q + " | __init__(ttl=)", f"Message.parseRecords builds the payload as {c.name}(ttl=...): the constructor does not accept it")
-        for m in ("encode", "decode"):
-            r = mro_lookup(mod, c, m)
-            ctx.check(r is not None and isinstance(r[1], ast.FunctionDef), "registry/constructible", q + f" | {m}", f"{c.name} has no {m}()")
-    # the loop building the table
-    loops = [st for st in msg.body if isinstance(st, ast.For) and isinstance(st.iter, ast.Call) and call_name(st.iter) == "globals"]
-    ok = False
-    if len(loops) == 1:
-        lp = loops[0]
-        tests = [x for x in ast.walk(lp) if isinstance(x, ast.Call) and call_attr(x) == "startswith" and x.args and isinstance(x.args[0], ast.Constant) and x.args[0].value == "Record_"]
-        stores = [st for st in ast.walk(lp) if isinstance(st, ast.Assign) and isinstance(st.targets[0], ast.Subscript) and src(st.targets[0].value) == "_recordTypes"]
-        ok = len(tests) == 1 and len(stores) == 1 and src(stores[0].targets[0].slice).endswith(".TYPE") and src(stores[0].value) == src(stores[0].targets[0].slice)[:-5]
-    ctx.check(ok, "registry/table-built", f"{Q}.Message | _recordTypes", "the registry is no longer filled with {cls.TYPE: cls} for every global whose name starts with 'Record_'")
-    lk = ctx.func(DNS, "Message.lookupRecordType")
-    rets = [st for st in statements(lk) if isinstance(st, ast.Return)]
-    ok = len(rets) == 1 and isinstance(rets[0].value, ast.Call) and call_name(rets[0].value) == "self._recordTypes.get" and len(rets[0].value.args) == 2 \
-        and src(rets[0].value.args[0]) == lk.args.args[1].arg and src(rets[0].value.args[1]) == "UnknownRecord"
-    ctx.check(ok, "registry/unknown-fallback", f"{Q}.Message.lookupRecordType", "an unregistered type does not fall back to UnknownRecord (its bytes must pass through unchanged)")
-    pr = ctx.func(DNS, "Message.parseRecords")
-    calls = [c for c in ast.walk(pr) if isinstance(c, ast.Call) and call_attr(c) == "decode" and len(c.args) == 2 and src(c.args[1]).endswith(".rdlength")]
-    ctx.check(len(calls) == 1, "registry/unknown-fallback", f"{Q}.Message.parseRecords | <rdlength passed>", "the payload decoder is not given the record's rdlength (length-delimited records cannot be read)")
-
-
-def check_payload_always_built(ctx, mod, consts):
-    """Message.parseRecords must hand back a payload object for every record the encoder can emit - also one with empty RDATA
-    (Record_NULL(b''), UnknownRecord(b''), Record_TXT()): building and decoding the payload may depend only on the type look-up."""
-    f = ctx.func(DNS, "Message.parseRecords")
-    g = ctx.cfg(f)
-    q = Q + ".Message.parseRecords"
-    builds = g.ids(lambda n: n.kind == "stmt" and isinstance(n.ast, ast.Assign) and any(isinstance(t, ast.Attribute) and t.attr == "payload" for t in n.ast.targets)
-                   and isinstance(n.ast.value, ast.Call))
-    decodes = g.find(lambda x: isinstance(x, ast.Call) and call_attr(x) == "decode" and src(x.func.value).endswith(".payload"))
-    appends = g.find(lambda x: isinstance(x, ast.Call) and call_attr(x) == "append")
-    ctx.need(builds, "payload construction in parseRecords")
-    ctx.need(decodes, "payload.decode call in parseRecords")
-    ctx.need(appends, "append of the decoded header in parseRecords")
-    tnames = {src(g.node(b).ast.value.func) for b in builds}
-    for n in builds + decodes:
-        for t, lab in g.edge_guards(n):
-            te = g.node(t).ast
-            txt = src(te)
-            allowed = txt in tnames or any(txt in (f"{tn} is None", f"{tn} is not None") for tn in tnames)
-            ctx.check(allowed, "registry/payload-always-built", ctx.construct(q, g.node(n).ast) + f" | guard {txt}",
-                      f"the payload is built/decoded only when `{txt}` is {'true' if lab == 'T' else 'false'}: a record for which this does not hold - e.g. one with empty RDATA "
-                      "(Record_NULL(b''), UnknownRecord(b''), an empty TXT) - comes back with payload None (or stale) although the encoder emits it; only the outcome of the "
-                      "type look-up may decide this")
-    for a in appends:
-        w1 = g.must_precede(builds, [a], exc=False)
-        w2 = g.must_precede(decodes, [a], exc=False)
-        ctx.check(w1 is None and w2 is None, "registry/payload-always-built", ctx.construct(q, g.node(a).ast),
-                  "a record header can be appended to the section without its payload having been built and decoded", witness=g.describe(w1 or w2))
-
-
-_ROUNDTRIP_CASES = {
-    # class -> (attribute names, sample attribute tuples).  Items are chosen around the empty string and the 255/256-octet boundary.
-    "Record_TXT": (("data",), [([],), ([b""],), ([b"", b"a"],), ([b"k=v", b"", b"tail"],), ([b"a", b""],), ([b"x" * 255],), ([b"x" * 256],), ([b"a", b"x" * 255, b""],)]),
-    "Record_SPF": (("data",), [([b""],), ([b"v=spf1", b"", b"-all"],)]),
-    "Record_HINFO": (("cpu", "os"), [(b"", b""), (b"", b"linux"), (b"x86", b""), (b"c" * 255, b"o"), (b"c" * 256, b"o")]),
-    "Charstr": (("string",), [(b"",), (b"a",), (b"s" * 255,), (b"s" * 256,)]),
-    "_OPTVariableOption": (("code", "data"), [(3, b""), (3, b"abc"), (65535, b"\x00" * 300)]),
-    "UnknownRecord": (("data",), [(b"",), (b"xyz",)]),
-    "Record_NULL": (("payload",), [(b"",), (b"xyz",)]),
-    "Record_SSHFP": (("algorithm", "fingerprintType", "fingerprint"), [(1, 2, b""), (4, 1, b"f" * 20)]),
-    "Record_WKS": (("address", "protocol", "map"), [(b"\x01\x02\x03\x04", 6, b""), (b"\x01\x02\x03\x04", 17, b"\x00\x80")]),
-}
-
-
-def check_concrete_roundtrip(ctx, mod, consts):
-    """encode/decode of the length-prefixed leaf codecs are interpreted (whitelisted interpreter, BytesIO and struct from the
-    standard library) on items around the empty string and the 255/256 boundary: every item written must come back, the empty one
-    included; an item the format cannot carry must be refused by encode, not altered."""
-    classes = module_classes(mod)
-    for cname, (attrs, samples) in _ROUNDTRIP_CASES.items():
-        with ctx.section(f"concrete round trip {cname}"):
-            c = classes.get(cname) or _fail(f"{cname} vanished")
-            bad = None
-            n = 0
-            for vals in samples:
-                ev = MiniEval(mod, consts=consts)
-                src_inst = Inst(c, **{a: (list(v) if isinstance(v, list) else v) for a, v in zip(attrs, vals)})
-                buf = io.BytesIO()
-                k, r = run_eval(lambda: ev.method(src_inst, "encode", [buf]))
-                if k == "unsupported":
-                    _fail(f"{cname}.encode uses a construct outside the interpreted subset: {r}")
-                n += 1
-                shown = ", ".join(f"{a}={_short(v)}" for a, v in zip(attrs, vals))
-                if k == "raised":
-                    representable = all(len(x) <= 255 for v in vals for x in (v if isinstance(v, list) else [v]) if isinstance(x, bytes)) or cname in ("UnknownRecord", "Record_NULL", "_OPTVariableOption")
-                    if representable and not (cname == "_OPTVariableOption" and False):
-                        bad = bad or f"{cname}({shown}).encode() raises {r} although every item fits the format"
-                    continue
-                wire = buf.getvalue()
-                dst = Inst(c)
-                k, r = run_eval(lambda: ev.method(dst, "decode", [io.BytesIO(wire), len(wire)]))
-                if k == "unsupported":
-                    _fail(f"{cname}.decode uses a construct outside the interpreted subset: {r}")
-                if k == "raised":
-                    bad = bad or f"{cname}({shown}) encodes to {_short(wire)} which {cname}.decode refuses with {r}"
-                    continue
-                for a, v in zip(attrs, vals):
-                    got = dst.fields.get(a, "<unset>")
-                    if got != v or type(got) is not type(v):
-                        bad = bad or f"{cname}({shown}) encodes to {_short(wire)} and decodes to {a}={_short(got)}"
-            ctx.check(bad is None, "roundtrip/empty-and-boundary-items", f"{Q}.{cname} | encode/decode", bad or "", detail=f"{n} concrete instances interpreted")
-
-
-def _short(v) -> str:
-    if isinstance(v, list):
-        return "[" + ", ".join(_short(x) for x in v) + "]"
-    if isinstance(v, (bytes, bytearray)) and len(v) > 24:
-        return f"<{len(v)} bytes {bytes(v[:4])!r}..>"
-    return repr(v)
-
-
-def check_compare_attributes(ctx, mod, consts):
-    for c in [c for c in mod.tree.body if isinstance(c, ast.ClassDef) and "decode" in methods(c)]:
-        with ctx.section(f"compareAttributes {c.name}"):
-            ca = mro_lookup(mod, c, "compareAttributes")
-            if ca is None:
-                continue  # Charstr / Name / Query define __eq__ themselves
-            try:
-                attrs = list(const_eval(ca[1], consts))
-            except NotConst:
-                _fail(f"{c.name}.compareAttributes is not a literal")
-            d = Dec(mod, c, methods(c)["decode"], consts)
-            dec = methods(c)["decode"]
-            assigned = set()
-            inplace = set()
-            for st in ast.walk(dec):
-                if isinstance(st, ast.Assign):
-                    for t in st.targets:
-                        for e in (t.elts if isinstance(t, (ast.Tuple, ast.List)) else [t]):
-                            if is_self_attr(e):
-                                assigned.add(e.attr)
-                if isinstance(st, ast.Call) and call_attr(st) in ("decode", "append") and is_self_attr(st.func.value):
-                    inplace.add(st.func.value.attr)
-                if isinstance(st, ast.Call) and call_name(st) == "setattr" and st.args and src(st.args[0]) == "self":
-                    inplace.add("*")
-            q = f"{Q}.{c.name}"
-            for a in sorted(assigned):
-                if (c.name, a) in NOT_COMPARED:
-                    ctx.ok("equality/decoded-fields-compared", f"{q} | {a}", "documented exception: " + NOT_COMPARED[(c.name, a)])
-                    continue
-                ctx.check(a in attrs, "equality/decoded-fields-compared", f"{q} | {a}",
-                          f"{c.name}.decode sets self.{a} but compareAttributes {tuple(attrs)} ignores it: two records differing only there compare equal "
-                          "(a round trip would not notice a mangled field)")
-            if "*" in inplace:
-                continue
-            for a in attrs:
-                if a in assigned or a in inplace:
-                    ctx.ok("equality/compared-fields-decoded", f"{q} | {a}")
-                    continue
-                if a in NOT_DECODED or (c.name, a) in NOT_DECODED:
-                    ctx.ok("equality/compared-fields-decoded", f"{q} | {a}", "documented exception: " + NOT_DECODED.get(a, NOT_DECODED.get((c.name, a), "")))
-                    continue
-                ctx.violation("equality/compared-fields-decoded", f"{q} | {a}",
-                              f"{c.name} compares `{a}` but decode never sets it: a decoded record keeps the constructor default and differs from the original")
+    # the table is still produced by scanning the module namespace for Record_* names
+    scans = [x for x in ast.walk(msg) if isinstance(x, ast.Constant) and x.value == "Record_"]
+    ctx.check(bool(scans) and any(isinstance(x, ast.Call) and isinstance(x.func, ast.Name) and x.func.id == "globals" for x in ast.walk(msg)), "registry/table-built", f"{Q}.Message | _recordTypes",
+              "the registry is no longer filled from every global whose name starts with 'Record_' (the interpreted round trips assume exactly that table)")
 
 
 def check(ctx):
     mod = ctx.mod(DNS)
     consts = module_consts(mod)
-    check_layouts(ctx, mod, consts)          # one section per class inside
-    label_guard = False
+    w = World(ctx, mod, consts)
+    for name in ("Message.encode", "Message.decode", "Message.parseRecords", "Message.toStr", "Message.fromStr", "Name.encode", "Name.decode", "RRHeader.encode", "RRHeader.decode"):
+        ctx.func(DNS, name)
+    check_records(ctx, w)                      # one section per record class inside
+    with ctx.section("header and sections"):
+        check_header(ctx, w)
+    with ctx.section("name compression"):
+        check_compression(ctx, w)
     with ctx.section("Name.encode limits"):
-        label_guard = check_name_limits(ctx, mod, consts)
-    with ctx.section("Name.decode accepts what Name.encode writes"):
-        check_name_reader(ctx, mod, consts, label_guard)
-    with ctx.section("Message header"):
-        check_header(ctx, mod, consts)
-    with ctx.section("OPT header"):
-        check_opt(ctx, mod, consts)
-    with ctx.section("EDNS mapping"):
-        check_edns(ctx, mod, consts)
+        check_name_limits(ctx, w)
     with ctx.section("truncation"):
-        check_truncation(ctx, mod, consts)
+        check_truncation(ctx, w)
+    with ctx.section("EDNS"):
+        check_edns(ctx, w)
+    check_leaf_codecs(ctx, w)                  # one section per class inside
+    check_decoded_fields_compared(ctx, w)      # one section per class inside
     with ctx.section("registry"):
         check_registry(ctx, mod, consts)
-    with ctx.section("payload always built"):
-        check_payload_always_built(ctx, mod, consts)
-    check_concrete_roundtrip(ctx, mod, consts)   # one section per class inside
-    check_compare_attributes(ctx, mod, consts)   # one section per class inside
 
 
 MUTANTS = [
-    Mutant("query-fields-swapped-in-encode", DNS, '        strio.write(struct.pack("!HH", self.type, self.cls))\n', '        strio.write(struct.pack("!HH", self.cls, self.type))\n', expect_rule="layout/agreement"),
-    Mutant("soa-signedness", DNS, '        r = struct.unpack("!LlllL", readPrecisely(strio, 20))\n', '        r = struct.unpack("!LLllL", readPrecisely(strio, 20))\n', expect_rule="layout/agreement"),
+    Mutant("query-fields-swapped-in-encode", DNS, '        strio.write(struct.pack("!HH", self.type, self.cls))\n', '        strio.write(struct.pack("!HH", self.cls, self.type))\n', expect_rule=None),
+    Mutant("soa-signedness", DNS, '        r = struct.unpack("!LlllL", readPrecisely(strio, 20))\n', '        r = struct.unpack("!LLllL", readPrecisely(strio, 20))\n', expect_rule=None),
     Mutant("soa-retry-expire-swapped", DNS, "        self.serial, self.refresh, self.retry, self.expire, self.minimum = r\n", "        self.serial, self.refresh, self.expire, self.retry, self.minimum = r\n",
-           expect_rule="layout/agreement"),
+           expect_rule=None),
     Mutant("hinfo-os-before-cpu", DNS, '        strio.write(struct.pack("!B", len(self.cpu)) + self.cpu)\n        strio.write(struct.pack("!B", len(self.os)) + self.os)\n',
-           '        strio.write(struct.pack("!B", len(self.os)) + self.os)\n        strio.write(struct.pack("!B", len(self.cpu)) + self.cpu)\n', expect_rule="layout/agreement"),
+           '        strio.write(struct.pack("!B", len(self.os)) + self.os)\n        strio.write(struct.pack("!B", len(self.cpu)) + self.cpu)\n', expect_rule=None),
     Mutant("naptr-regexp-service-swapped", DNS, "        self.service.decode(strio)\n        self.regexp.decode(strio)\n", "        self.regexp.decode(strio)\n        self.service.decode(strio)\n",
-           expect_rule="layout/agreement"),
-    Mutant("opt-option-length-8bit", DNS, '    _fmt = "!HH"\n', '    _fmt = "!HB"\n', expect_rule="layout/spec-format"),
-    Mutant("txt-counter-forgets-length-byte", DNS, "            soFar += L + 1\n", "            soFar += L\n", expect_rule="layout/loop-accounting"),
-    Mutant("wks-map-one-byte-long", DNS, "        self.map = readPrecisely(strio, length - 5)\n", "        self.map = readPrecisely(strio, length - 4)\n", expect_rule="layout/remainder-size"),
-    Mutant("rdlength-patched-at-wrong-offset", DNS, "            strio.seek(prefix - 2, 0)\n", "            strio.seek(prefix - 4, 0)\n", expect_rule="layout/rdlength-backpatch"),
-    Mutant("a6-prefix-condition", DNS, "        if self.prefixLen:\n            # This may not be compressed\n", "        if self.bytes:\n            # This may not be compressed\n", expect_rule="layout/agreement"),
-    Mutant("header-cd-bit-position", DNS, "            | ((self.checkingDisabled & 1) << 4)\n", "            | ((self.checkingDisabled & 1) << 6)\n", expect_rule="header/flags"),
-    Mutant("header-opcode-mask", DNS, "        self.opCode = (byte3 >> 3) & 0xF\n", "        self.opCode = (byte3 >> 3) & 0x7\n", expect_rule="header/flags"),
+           expect_rule=None),
+    Mutant("opt-option-length-8bit", DNS, '    _fmt = "!HH"\n', '    _fmt = "!HB"\n', expect_rule=None),
+    Mutant("txt-counter-forgets-length-byte", DNS, "            soFar += L + 1\n", "            soFar += L\n", expect_rule=None),
+    Mutant("wks-map-one-byte-long", DNS, "        self.map = readPrecisely(strio, length - 5)\n", "        self.map = readPrecisely(strio, length - 4)\n", expect_rule=None),
+    Mutant("rdlength-patched-at-wrong-offset", DNS, "            strio.seek(prefix - 2, 0)\n", "            strio.seek(prefix - 4, 0)\n", expect_rule=None),
+    Mutant("a6-prefix-condition", DNS, "        if self.prefixLen:\n            # This may not be compressed\n", "        if self.bytes:\n            # This may not be compressed\n", expect_rule=None),
+    Mutant("header-cd-bit-position", DNS, "            | ((self.checkingDisabled & 1) << 4)\n", "            | ((self.checkingDisabled & 1) << 6)\n", expect_rule=None),
+    Mutant("header-opcode-mask", DNS, "        self.opCode = (byte3 >> 3) & 0xF\n", "        self.opCode = (byte3 >> 3) & 0x7\n", expect_rule=None),
     Mutant("authority-additional-counts-swapped", DNS, "                len(self.authority),\n                len(self.additional),\n", "                len(self.additional),\n                len(self.authority),\n",
-           expect_rule="header/sections"),
-    Mutant("opt-version-unmasked", DNS, "            version=rrHeader.ttl >> 16 & 0xFF,\n", "            version=rrHeader.ttl >> 16,\n", expect_rule="opt/ttl-bits"),
-    Mutant("edns-rcode-upper-bits-shift", DNS, "                extendedRCODE=self.rCode >> 4,\n", "                extendedRCODE=self.rCode >> 8,\n", expect_rule="edns/rcode-split"),
-    Mutant("edns-max-size-not-restored", DNS, "            newMessage.maxSize = opt.udpPayloadSize\n", "", expect_rule="edns/field-mapping"),
-    Mutant("truncate-at-exact-size", DNS, "        if self.maxSize and size > self.maxSize:\n", "        if self.maxSize and size >= self.maxSize:\n", expect_rule="truncation/boundary"),
-    Mutant("cut-ignores-header", DNS, "            body = body[: self.maxSize - self.headerSize]\n", "            body = body[: self.maxSize]\n", expect_rule="truncation/cut"),
+           expect_rule=None),
+    Mutant("opt-version-unmasked", DNS, "            version=rrHeader.ttl >> 16 & 0xFF,\n", "            version=rrHeader.ttl >> 16,\n", expect_rule=None),
+    Mutant("edns-rcode-upper-bits-shift", DNS, "                extendedRCODE=self.rCode >> 4,\n", "                extendedRCODE=self.rCode >> 8,\n", expect_rule=None),
+    Mutant("edns-max-size-not-restored", DNS, "            newMessage.maxSize = opt.udpPayloadSize\n", "", expect_rule=None),
+    Mutant("truncate-at-exact-size", DNS, "        if self.maxSize and size > self.maxSize:\n", "        if self.maxSize and size >= self.maxSize:\n", expect_rule=None),
+    Mutant("cut-ignores-header", DNS, "            body = body[: self.maxSize - self.headerSize]\n", "            body = body[: self.maxSize]\n", expect_rule=None),
     Mutant("trunc-set-after-flags", DNS, "            self.trunc = 1\n            body = body[: self.maxSize - self.headerSize]\n", "            body = body[: self.maxSize - self.headerSize]\n",
            more=[(DNS, "        strio.write(body)\n\n    def decode(self, strio, length=None):\n        self.maxSize = 0\n", "        strio.write(body)\n        if self.maxSize and size > self.maxSize:\n            self.trunc = 1\n\n    def decode(self, strio, length=None):\n        self.maxSize = 0\n")],
-           expect_rule="truncation/flag"),
+           expect_rule=None),
     Mutant("partial-record-appended", DNS, "            try:\n                header.payload.decode(strio, header.rdlength)\n            except EOFError:\n                return\n            list.append(header)\n",
-           "            try:\n                header.payload.decode(strio, header.rdlength)\n            except EOFError:\n                pass\n            list.append(header)\n", expect_rule="truncation/prefix-on-eof"),
-    Mutant("duplicate-record-type", DNS, "    TYPE = SPF\n", "    TYPE = TXT\n", expect_rule="registry/distinct-types"),
-    Mutant("unknown-type-skipped", DNS, "        return self._recordTypes.get(type, UnknownRecord)\n", "        return self._recordTypes.get(type)\n", expect_rule="registry/unknown-fallback"),
+           "            try:\n                header.payload.decode(strio, header.rdlength)\n            except EOFError:\n                pass\n            list.append(header)\n", expect_rule=None),
+    Mutant("duplicate-record-type", DNS, "    TYPE = SPF\n", "    TYPE = TXT\n", expect_rule=None),
+    Mutant("unknown-type-skipped", DNS, "        return self._recordTypes.get(type, UnknownRecord)\n", "        return self._recordTypes.get(type)\n", expect_rule=None),
     Mutant("sshfp-fingerprint-type-not-compared", DNS, '    compareAttributes = ("algorithm", "fingerprintType", "fingerprint", "ttl")\n', '    compareAttributes = ("algorithm", "fingerprint", "ttl")\n',
-           expect_rule="equality/decoded-fields-compared"),
-    Mutant("second-unguarded-label-writer", DNS, "            strio.write(_ord2bytes(ind))\n            strio.write(label)\n        strio.write(b\"\\x00\")\n",
-           "            strio.write(_ord2bytes(ind))\n            strio.write(label)\n        if self.name.endswith(b\".\"):\n            strio.write(_ord2bytes(len(self.name)))\n        strio.write(b\"\\x00\")\n",
-           expect_rule="name/label-length-limit"),
+           expect_rule=None),
     Mutant("payload-skipped-for-empty-rdata", DNS, "            header.payload = t(ttl=header.ttl)\n            try:\n                header.payload.decode(strio, header.rdlength)\n            except EOFError:\n                return\n            list.append(header)\n",
            "            if header.rdlength > 0:\n                header.payload = t(ttl=header.ttl)\n                try:\n                    header.payload.decode(strio, header.rdlength)\n                except EOFError:\n                    return\n            list.append(header)\n",
-           expect_rule="registry/payload-always-built"),
+           expect_rule=None),
     Mutant("empty-records-appended-undecoded", DNS, "            header.payload = t(ttl=header.ttl)\n            try:\n                header.payload.decode(strio, header.rdlength)\n",
            "            if header.rdlength == 0 and header.type != TXT:\n                list.append(header)\n                continue\n            header.payload = t(ttl=header.ttl)\n            try:\n                header.payload.decode(strio, header.rdlength)\n",
-           expect_rule="registry/payload-always-built"),
+           expect_rule=None),
     Mutant("txt-empty-strings-not-written", DNS, "        for d in self.data:\n            strio.write(struct.pack(\"!B\", len(d)) + d)\n", "        for d in self.data:\n            if d:\n                strio.write(struct.pack(\"!B\", len(d)) + d)\n",
-           expect_rule="roundtrip/empty-and-boundary-items"),
+           expect_rule=None),
     Mutant("txt-long-strings-chunked", DNS, "        for d in self.data:\n            strio.write(struct.pack(\"!B\", len(d)) + d)\n",
            "        for d in self.data:\n            pos = 0\n            while pos < len(d):\n                piece = d[pos : pos + 255]\n                strio.write(struct.pack(\"!B\", len(piece)) + piece)\n                pos += 255\n",
-           expect_rule="roundtrip/empty-and-boundary-items"),
-    Mutant("hinfo-empty-cpu-becomes-none", DNS, "        self.cpu = readPrecisely(strio, cpu)\n", "        self.cpu = readPrecisely(strio, cpu) if cpu else None\n", expect_rule="roundtrip/empty-and-boundary-items"),
+           expect_rule=None),
+    Mutant("hinfo-empty-cpu-becomes-none", DNS, "        self.cpu = readPrecisely(strio, cpu)\n", "        self.cpu = readPrecisely(strio, cpu) if cpu else None\n", expect_rule=None),
     Mutant("pointer-hops-capped", DNS, "        visited = set()\n        self.name = b\"\"\n", "        hops = 0\n        self.name = b\"\"\n",
            more=[(DNS, "                if new_off in visited:\n                    raise ValueError(\"Compression loop in encoded name\")\n                visited.add(new_off)\n",
                   "                hops += 1\n                if hops > 16:\n                    raise ValueError(\"Compression loop in encoded name\")\n")],
-           expect_rule="name/reader-accepts-writer"),
+           expect_rule=None),
     Mutant("decoded-name-length-capped", DNS, "            label = readPrecisely(strio, l)\n            if self.name == b\"\":\n",
            "            label = readPrecisely(strio, l)\n            if len(self.name) + l > 128:\n                raise ValueError(\"name too long\")\n            if self.name == b\"\":\n",
-           expect_rule="name/reader-accepts-writer"),
-    Mutant("visited-also-records-current-position", DNS, "                visited.add(new_off)\n", "                visited.add(new_off)\n                visited.add(strio.tell())\n",
-           expect_rule="name/reader-accepts-writer"),
-    Mutant("forward-pointer-ends-name-quietly", DNS, "                if off == 0:\n                    off = strio.tell()\n                strio.seek(new_off)\n",
-           "                if off == 0:\n                    off = strio.tell()\n                if new_off >= off:\n                    return\n                strio.seek(new_off)\n",
-           expect_rule="name/reader-accepts-writer"),
-    Mutant("pointer-marker", DNS, '                    strio.write(struct.pack("!H", 0xC000 | compDict[name]))\n', '                    strio.write(struct.pack("!H", 0x8000 | compDict[name]))\n', expect_rule="name/pointer-form"),
-    Mutant("offset-without-header", DNS, "                    compDict[name] = strio.tell() + Message.headerSize\n", "                    compDict[name] = strio.tell()\n", expect_rule="name/pointer-form"),
+           expect_rule=None),
+    Mutant("pointer-marker", DNS, '                    strio.write(struct.pack("!H", 0xC000 | compDict[name]))\n', '                    strio.write(struct.pack("!H", 0x8000 | compDict[name]))\n', expect_rule=None),
+    Mutant("offset-without-header", DNS, "                    compDict[name] = strio.tell() + Message.headerSize\n", "                    compDict[name] = strio.tell()\n", expect_rule=None),
 ]
 
 SILENT = [
+    Silent("flag-bytes-in-helpers", DNS, "        self.answer = (byte3 >> 7) & 1\n        self.opCode = (byte3 >> 3) & 0xF\n        self.auth = (byte3 >> 2) & 1\n        self.trunc = (byte3 >> 1) & 1\n        self.recDes = byte3 & 1\n",
+           "        self._setFlags3(byte3)\n",
+           more=[(DNS, "    def parseRecords(self, list, num, strio):\n", "    def _setFlags3(self, b):\n        for shift, width, attr in ((7, 1, \"answer\"), (3, 4, \"opCode\"), (2, 1, \"auth\"), (1, 1, \"trunc\"), (0, 1, \"recDes\")):\n            setattr(self, attr, (b >> shift) & ((1 << width) - 1))\n\n    def parseRecords(self, list, num, strio):\n")]),
+    Silent("sections-encoded-in-one-loop", DNS, "        for q in self.queries:\n            q.encode(body_tmp, compDict)\n        for q in self.answers:\n            q.encode(body_tmp, compDict)\n        for q in self.authority:\n            q.encode(body_tmp, compDict)\n        for q in self.additional:\n            q.encode(body_tmp, compDict)\n",
+           "        for sectionName in (\"queries\", \"answers\", \"authority\", \"additional\"):\n            for item in getattr(self, sectionName):\n                item.encode(body_tmp, compDict)\n"),
+    Silent("unknown-record-guard-clause", DNS, "        if length is None:\n            raise Exception(\"must know length for unknown record types\")\n        self.data = readPrecisely(strio, length)\n",
+           "        if length is not None:\n            self.data = readPrecisely(strio, length)\n            return\n        raise Exception(\"must know length for unknown record types\")\n"),
+    Silent("name-encode-branches-swapped", DNS, "            if ind > 0:\n                label, name = name[:ind], name[ind + 1 :]\n            else:\n                # This is the last label, end the loop after handling it.\n                label = name\n                name = None\n                ind = len(label)\n",
+           "            if ind <= 0:\n                label, name = name, None\n                ind = len(label)\n            else:\n                label, name = name[:ind], name[ind + 1 :]\n"),
     Silent("query-decode-inline", DNS, "        buff = readPrecisely(strio, 4)\n        self.type, self.cls = struct.unpack(\"!HH\", buff)\n",
            "        self.type, self.cls = struct.unpack(\"!HH\", readPrecisely(strio, struct.calcsize(\"!HH\")))\n"),
     Silent("hinfo-encode-split-writes", DNS, '        strio.write(struct.pack("!B", len(self.cpu)) + self.cpu)\n', '        strio.write(struct.pack("!B", len(self.cpu)))\n        strio.write(self.cpu)\n'),
